@@ -1,25 +1,40 @@
-//! C07 — price rules. The REAL vending / open-edition factories, all 9 minter variants and their whitelists inside one
-//! cw-multi-test `App`, driven by protocol lines and compared with `LP.PriceRules` (Lean).
+//! C07 — price rules. The REAL vending / open-edition factories, all 9 minter variants and their whitelists (plain, flex,
+//! Merkle AND the three tiered kinds) inside one cw-multi-test `App`, driven by protocol lines and compared with
+//! `LP.PriceRules` / `LP.PriceRulesT` (Lean).
 //!
-//! After every state-changing step the generator issues a `probe`: four mint attempts (current_price−1, current_price,
-//! current_price+1, current_price in a wrong denom) by an eligible buyer against the very same `App` state. Each attempt is
-//! `App::execute_multi([mint, sentinel])` where the sentinel message always fails, so cw-multi-test itself rolls the whole
-//! attempt back (no copy of the world is needed) and the error tells which of the two messages failed.
-use cosmwasm_std::{coin, Addr, Binary, CosmosMsg, WasmMsg};
+//! Round 3:
+//! * the environment moves: tiered whitelists, whitelist admin updates after attachment (`wltime`, `wlstage`, `wladd`,
+//!   `wlrm`), `mint_fee_bps` changes (`sudofee`), factory `migrate` with an UpdateParamsMsg (`facmig`), open-edition
+//!   `UpdateEndTime` (`uet`), minter `migrate` on all 9 variants, and a run-time sweep over every OTHER ExecuteMsg variant of
+//!   the minter crate (`surface`; the variants are enumerated from `schema_for!(ExecuteMsg)`, unknown ones are built from
+//!   the schema and sent under the same monitors);
+//! * the monitors are evaluated against the harness's OWN ghost record (the floor, fee rate, start time, public price,
+//!   discount, attached whitelist it itself set by messages that were accepted), not against what the minter reports about
+//!   its past; what a mint costs is the buyer's balance difference;
+//! * no dependence on error text, event attributes or raw storage keys: the probe learns whether the mint went through from a
+//!   sentinel CONTRACT (second message of the same `execute_multi`; it records that it was reached and fails, so
+//!   cw-multi-test rolls the attempt back), `LAST_DISCOUNT_TIME` is read through each crate's typed `state::` constant, the
+//!   cw2 version through `cw2::{get,set}_contract_version`;
+//! * output lines are `primary ## drift` (see Driver/C07.lean): airdrop price, `end_time`, whitelist count, acceptance of
+//!   environment steps and the fate of mints whose network fee is dust are outside the projection.
+use cosmwasm_std::{coin, Addr, Binary, CosmosMsg, Deps, DepsMut, Empty, Env, MessageInfo, Response, StdError, StdResult, WasmMsg};
 use lp_harness::minters::*;
 use lp_harness::world::{addr, denom, denom_id};
 use lp_harness::*;
 use serde_json::{json, Value};
 use sha2::{Digest, Sha256};
+use std::sync::atomic::{AtomicBool, Ordering};
 
 const HOUR: u64 = 3_600_000_000_000;
 const H12: u64 = 12 * HOUR;
 const DAY: u64 = 24 * HOUR;
 const ADMIN: u64 = 10;
 const STRANGER: u64 = 11;
+const GOV: u64 = 90;
 const PROBE_BUYER: u64 = 29;
 const CREATION_FEE: u128 = 5_000_000_000;
-const SENTINEL: &str = "probe_sentinel";
+/// a network fee below this may be split by sg1 into an empty part (C06/C02 own that): outside the projection
+const DUST_MAX: u128 = 16;
 
 // ------------------------------------------------------------------------------------------------ merkle helper
 
@@ -33,9 +48,27 @@ fn pair(a: [u8; 32], b: [u8; 32]) -> [u8; 32] {
     v.sort_unstable();
     sha(&v.concat())
 }
-/// sorted-pair sha256 tree over the member strings; returns (root hex, proof hex list per member)
-fn merkle(members: &[String]) -> (String, Vec<Vec<String>>) {
-    let mut level: Vec<[u8; 32]> = members.iter().map(|m| sha(m.as_bytes())).collect();
+/// blake3 truncated to 16 bytes (tiered-whitelist-merkletree), zero-padded to the common 32-byte carrier
+fn b3(b: &[u8]) -> [u8; 32] {
+    let mut out = [0u8; 32];
+    out[..16].copy_from_slice(&blake3::hash(b).as_bytes()[..16]);
+    out
+}
+/// sorted-pair tree over the member strings; returns (root hex, proof hex list per member).
+/// `wide` = sha256 / 32 bytes (whitelist-merkletree); otherwise blake3 / 16 bytes (tiered-whitelist-merkletree)
+fn merkle(members: &[String], wide: bool) -> (String, Vec<Vec<String>>) {
+    let n = if wide { 32 } else { 16 };
+    let h = |b: &[u8]| if wide { sha(b) } else { b3(b) };
+    let pair = |a: [u8; 32], b: [u8; 32]| -> [u8; 32] {
+        if wide {
+            pair(a, b)
+        } else {
+            let mut v = [a[..16].to_vec(), b[..16].to_vec()];
+            v.sort_unstable();
+            b3(&v.concat())
+        }
+    };
+    let mut level: Vec<[u8; 32]> = members.iter().map(|m| h(m.as_bytes())).collect();
     let mut idx: Vec<usize> = (0..members.len()).collect();
     let mut proofs: Vec<Vec<String>> = vec![vec![]; members.len()];
     while level.len() > 1 {
@@ -50,43 +83,200 @@ fn merkle(members: &[String]) -> (String, Vec<Vec<String>>) {
         for (m, p) in idx.iter_mut().enumerate() {
             let sib = *p ^ 1;
             if sib < level.len() {
-                proofs[m].push(hex::encode(level[sib]));
+                proofs[m].push(hex::encode(&level[sib][..n]));
             }
             *p /= 2;
         }
         level = next;
     }
-    (hex::encode(level[0]), proofs)
+    (hex::encode(&level[0][..n]), proofs)
+}
+
+// ------------------------------------------------------------------------------------------------ the message surface, at run time
+
+fn exec_schema(kind: MinterKind) -> Value {
+    use cosmwasm_schema::schema_for;
+    let s = match kind {
+        MinterKind::Vending => serde_json::to_value(schema_for!(vending_minter::msg::ExecuteMsg)),
+        MinterKind::VendingFeatured => serde_json::to_value(schema_for!(vending_minter_featured::msg::ExecuteMsg)),
+        MinterKind::VendingFlex => serde_json::to_value(schema_for!(vending_minter_wl_flex::msg::ExecuteMsg)),
+        MinterKind::VendingFlexFeatured => serde_json::to_value(schema_for!(vending_minter_wl_flex_featured::msg::ExecuteMsg)),
+        MinterKind::VendingMerkle => serde_json::to_value(schema_for!(vending_minter_merkle_wl::msg::ExecuteMsg)),
+        MinterKind::VendingMerkleFeatured => serde_json::to_value(schema_for!(vending_minter_merkle_wl_featured::msg::ExecuteMsg)),
+        MinterKind::OpenEdition => serde_json::to_value(schema_for!(open_edition_minter::msg::ExecuteMsg)),
+        MinterKind::OpenEditionFlex => serde_json::to_value(schema_for!(open_edition_minter_wl_flex::msg::ExecuteMsg)),
+        MinterKind::OpenEditionMerkle => serde_json::to_value(schema_for!(open_edition_minter_merkle_wl::msg::ExecuteMsg)),
+        MinterKind::TokenMerge => serde_json::to_value(schema_for!(token_merge_minter::msg::ExecuteMsg)),
+        MinterKind::Base => serde_json::to_value(schema_for!(base_minter::msg::ExecuteMsg)),
+    };
+    s.unwrap_or(Value::Null)
+}
+
+/// variants that have a protocol op of their own (the operations of the property, and `update_end_time` = `uet`)
+const MODELLED: [&str; 7] = ["mint", "update_mint_price", "update_discount_price", "remove_discount_price", "set_whitelist", "update_start_time", "update_end_time"];
+/// the other variants that exist today; anything else is reported as unknown — and sent all the same.
+/// Order = order of sending: the ones that end a sale go last.
+const OTHER_TODAY: [&str; 7] = ["update_start_trading_time", "update_per_address_limit", "mint_to", "mint_for", "shuffle", "purge", "burn_remaining"];
+
+/// (variant name, schema node of the variant)
+fn variants_of(schema: &Value) -> Vec<(String, Value)> {
+    let mut out = vec![];
+    for v in schema.get("oneOf").or_else(|| schema.get("anyOf")).and_then(|x| x.as_array()).cloned().unwrap_or_default() {
+        if let Some(e) = v.get("enum").and_then(|e| e.as_array()) {
+            for n in e {
+                if let Some(n) = n.as_str() {
+                    out.push((n.to_string(), Value::Null));
+                }
+            }
+        } else if let Some(req) = v.get("required").and_then(|r| r.as_array()).and_then(|r| r.first()).and_then(|r| r.as_str()) {
+            out.push((req.to_string(), v["properties"][req].clone()));
+        }
+    }
+    out
+}
+
+/// a minimal value for a schema node: required properties only, `null` where allowed (unless `fill`), `n` for numbers and
+/// numeric strings, an account for address-like names
+fn build_value(node: &Value, defs: &Value, hint: &str, n: u128, fill: bool, depth: u32) -> Value {
+    if depth > 8 {
+        return Value::Null;
+    }
+    if let Some(r) = node.get("$ref").and_then(|r| r.as_str()) {
+        let name = r.rsplit('/').next().unwrap_or("");
+        return build_value(&defs[name], defs, name, n, fill, depth + 1);
+    }
+    if let Some(a) = node.get("allOf").and_then(|a| a.as_array()) {
+        if let Some(f) = a.first() {
+            return build_value(f, defs, hint, n, fill, depth + 1);
+        }
+    }
+    for key in ["anyOf", "oneOf"] {
+        if let Some(a) = node.get(key).and_then(|a| a.as_array()) {
+            let nullable = a.iter().any(|x| x.get("type").and_then(|t| t.as_str()) == Some("null"));
+            if nullable && !fill {
+                return Value::Null;
+            }
+            if let Some(f) = a.iter().find(|x| x.get("type").and_then(|t| t.as_str()) != Some("null")) {
+                if let Some(req) = f.get("required").and_then(|r| r.as_array()).and_then(|r| r.first()).and_then(|r| r.as_str()) {
+                    let mut m = serde_json::Map::new();
+                    m.insert(req.to_string(), build_value(&f["properties"][req], defs, req, n, fill, depth + 1));
+                    return Value::Object(m);
+                }
+                return build_value(f, defs, hint, n, fill, depth + 1);
+            }
+        }
+    }
+    let ty = match node.get("type") {
+        Some(Value::String(s)) => s.clone(),
+        Some(Value::Array(a)) => {
+            if a.iter().any(|x| x.as_str() == Some("null")) && !fill {
+                return Value::Null;
+            }
+            a.iter().filter_map(|x| x.as_str()).find(|x| *x != "null").unwrap_or("null").to_string()
+        }
+        _ => "object".to_string(),
+    };
+    match ty.as_str() {
+        "object" => {
+            let mut m = serde_json::Map::new();
+            let names: Vec<String> = if fill {
+                node.get("properties").and_then(|p| p.as_object()).map(|o| o.keys().cloned().collect()).unwrap_or_default()
+            } else {
+                node.get("required").and_then(|r| r.as_array()).map(|r| r.iter().filter_map(|x| x.as_str().map(String::from)).collect()).unwrap_or_default()
+            };
+            for r in names {
+                m.insert(r.clone(), build_value(&node["properties"][&r], defs, &r, n, fill, depth + 1));
+            }
+            Value::Object(m)
+        }
+        "string" => {
+            let h = hint.to_ascii_lowercase();
+            if h == "denom" {
+                Value::String(denom(0))
+            } else if ["recipient", "address", "addr", "whitelist", "sender", "contract", "collection", "owner", "admin"].iter().any(|k| h.contains(k)) {
+                Value::String(addr(STRANGER))
+            } else if h.contains("binary") || h == "msg" {
+                Value::String("e30=".into())
+            } else if h.contains("uri") || h.contains("url") {
+                Value::String("ipfs://bafybeigi3bwpvyvsmnbj46ra4hyffcxdeaj6ntfk5jpic5mx27x6ih2qvq/1".into())
+            } else {
+                Value::String(n.to_string())
+            }
+        }
+        "integer" | "number" => {
+            let small = node.get("format").and_then(|f| f.as_str()).map(|f| f.contains("32") || f.contains("16") || f.contains("8")).unwrap_or(false);
+            if small {
+                json!((n % 40 + 1) as u64)
+            } else {
+                json!(n.min(u64::MAX as u128) as u64)
+            }
+        }
+        "boolean" => json!(false),
+        "array" => json!([]),
+        _ => Value::Null,
+    }
+}
+
+fn build_variant(schema: &Value, name: &str, node: &Value, n: u128, fill: bool) -> Value {
+    if node.is_null() {
+        return Value::String(name.to_string());
+    }
+    let defs = schema.get("definitions").cloned().unwrap_or(Value::Null);
+    let mut m = serde_json::Map::new();
+    m.insert(name.to_string(), build_value(node, &defs, name, n, fill, 0));
+    Value::Object(m)
+}
+
+// ------------------------------------------------------------------------------------------------ the probe's sentinel contract
+
+/// Set by the sentinel contract when it is executed. The probe sends `[Mint, sentinel]` in ONE `execute_multi`: the sentinel
+/// runs only if the mint before it succeeded; it then fails, so cw-multi-test discards the whole attempt. No error text is read.
+static SENTINEL_REACHED: AtomicBool = AtomicBool::new(false);
+
+fn sentinel_box() -> lp_harness::boxes::Boxed {
+    fn exec(_d: DepsMut, _e: Env, _i: MessageInfo, _m: Empty) -> StdResult<Response> {
+        SENTINEL_REACHED.store(true, Ordering::SeqCst);
+        Err(StdError::generic_err("rollback"))
+    }
+    fn inst(_d: DepsMut, _e: Env, _i: MessageInfo, _m: Empty) -> StdResult<Response> {
+        Ok(Response::new())
+    }
+    fn query(_d: Deps, _e: Env, _m: Empty) -> StdResult<Binary> {
+        Ok(Binary::default())
+    }
+    Box::new(cw_multi_test::ContractWrapper::new(exec, inst, query))
 }
 
 // ------------------------------------------------------------------------------------------------ observations
 
+type C = (u64, u128);
+
 #[derive(Clone, Debug, Default, PartialEq)]
 struct Obs {
-    fmin: (u64, u128),
-    air: (u64, u128),
+    fmin: C,
+    air: C,
     nwl: usize,
     m: Option<MObs>,
 }
 #[derive(Clone, Debug, Default, PartialEq)]
 struct MObs {
-    pubp: (u64, u128),
-    disc: Option<(u64, u128)>,
+    pubp: C,
+    disc: Option<C>,
     last: Option<u64>,
     start: u64,
     stop: Option<u64>,
     wl: Option<usize>,
-    qpub: (u64, u128),
-    qair: (u64, u128),
-    qwl: Option<(u64, u128)>,
-    qcur: (u64, u128),
-    qdisc: Option<(u64, u128)>,
+    qpub: C,
+    qair: C,
+    qwl: Option<C>,
+    qcur: C,
+    qdisc: Option<C>,
 }
 
-fn jc(v: &Value) -> (u64, u128) {
+fn jc(v: &Value) -> C {
     (denom_id(v["denom"].as_str().unwrap_or("?")), v["amount"].as_str().and_then(|s| s.parse().ok()).unwrap_or(u128::MAX))
 }
-fn joc(v: &Value) -> Option<(u64, u128)> {
+fn joc(v: &Value) -> Option<C> {
     if v.is_null() {
         None
     } else {
@@ -96,25 +286,50 @@ fn joc(v: &Value) -> Option<(u64, u128)> {
 fn jt(v: &Value) -> u64 {
     v.as_str().and_then(|s| s.parse().ok()).unwrap_or(u64::MAX)
 }
-fn rc(c: &(u64, u128)) -> String {
+fn rc(c: &C) -> String {
     format!("{}:{}", c.0, c.1)
 }
-fn roc(c: &Option<(u64, u128)>) -> String {
+fn roc(c: &Option<C>) -> String {
     c.as_ref().map(rc).unwrap_or_else(|| "-".into())
 }
 
 impl Obs {
-    fn render(&self) -> String {
-        let head = format!("fmin={} air={} nwl={}", rc(&self.fmin), rc(&self.air), self.nwl);
+    /// the property's projection (primary part of the output line)
+    fn render_p(&self) -> String {
         match &self.m {
-            None => format!("{head} m=none"),
+            None => format!("fmin={} m=none", rc(&self.fmin)),
             Some(m) => format!(
-                "{head} pub={} disc={} last={} start={} stop={} wl={} qpub={} qair={} qwl={} qcur={} qdisc={}",
-                rc(&m.pubp), roc(&m.disc), fmt_opt(&m.last), m.start, fmt_opt(&m.stop), fmt_opt(&m.wl),
-                rc(&m.qpub), rc(&m.qair), roc(&m.qwl), rc(&m.qcur), roc(&m.qdisc)
+                "fmin={} pub={} disc={} last={} start={} wl={} qpub={} qwl={} qcur={} qdisc={}",
+                rc(&self.fmin), rc(&m.pubp), roc(&m.disc), fmt_opt(&m.last), m.start, fmt_opt(&m.wl),
+                rc(&m.qpub), roc(&m.qwl), rc(&m.qcur), roc(&m.qdisc)
             ),
         }
     }
+    /// owned by other properties (after ` ## `)
+    fn render_d(&self) -> String {
+        let head = format!("air={} nwl={}", rc(&self.air), self.nwl);
+        match &self.m {
+            None => head,
+            Some(m) => format!("{head} stop={} qair={}", fmt_opt(&m.stop), rc(&m.qair)),
+        }
+    }
+    /// the part of the state a FAILED operation of the property must leave alone
+    fn price_state(&self) -> (C, Option<(C, Option<C>, Option<u64>, u64, Option<usize>)>) {
+        (self.fmin, self.m.as_ref().map(|m| (m.pubp, m.disc, m.last, m.start, m.wl)))
+    }
+}
+
+/// a whitelist contract as the harness created it and as the whitelist contract itself reports its content
+#[derive(Clone, Debug)]
+struct WlG {
+    addr: String,
+    kind: WlKind,
+    denom: u64,
+    /// (price, start, end) per stage; exactly one entry for the plain kinds
+    stages: Vec<(u128, u64, u64)>,
+}
+fn is_tiered(k: WlKind) -> bool {
+    matches!(k, WlKind::Tiered | WlKind::TieredFlex | WlKind::TieredMerkle)
 }
 
 // ------------------------------------------------------------------------------------------------ the system under test
@@ -124,52 +339,98 @@ struct S {
     w: World,
     factory: String,
     minter: Option<String>,
-    wls: Vec<String>,
+    sentinel: String,
+    wls: Vec<WlG>,
     mints_ok: u32,
     members: Vec<String>,
     root: String,
     proofs: Vec<Vec<String>>,
-    // monitor bookkeeping (the implementation's own trace)
+    /// the same members under tiered-whitelist-merkletree's hash (blake3, 16 bytes)
+    root16: String,
+    proofs16: Vec<Vec<String>>,
     finding: Option<(String, String)>,
+    /// opt-in flags of the case header (`optin=cwl,tier,wlmut`): monitors for the reported-but-undecided behaviours
+    optin: Vec<String>,
+    // ---- ghost record: what the harness itself set through messages that were accepted
+    g_fmin: C,
+    g_bps: u64,
+    g_start: Option<u64>,
+    /// "once the mint has started": sticky — the first block time at which an operation ran at or after the start time set
+    ever_started: Option<u64>,
+    g_pub: Option<C>,
+    g_disc: Option<C>,
+    g_wl: Option<usize>,
     last_disc_change: Option<u64>,
+    /// a migrate from a pre-3.9.0 version re-anchored the cooldown since the last discount change (see C07X_…migrate…)
+    reanchored: bool,
     /// denom of the factory minimum when this case's minter was created (to tell the recorded governance denom-switch history
     /// apart from any other way of ending up with a price in the wrong denom)
     fmin_denom_at_create: Option<u64>,
-    dust: bool,
+    /// what the last real mint took out of the buyer's account, per denom
+    last_charged: Vec<C>,
+    /// results of the last `surface` sweep, for the evidence: (variant, sender, ok, known)
+    surface_log: Vec<(String, &'static str, bool, bool)>,
+    counts: Vec<String>,
+    /// stage prices of the whitelist the last whitelist-admin message went to, before that message
+    wl_prev: Vec<u128>,
 }
 
-fn wl_kind(k: MinterKind) -> WlKind {
+fn wl_kinds(k: MinterKind) -> (WlKind, WlKind) {
     if k.is_flex() {
-        WlKind::Flex
+        (WlKind::Flex, WlKind::TieredFlex)
     } else if k.is_merkle() {
-        WlKind::Merkle
+        (WlKind::Merkle, WlKind::TieredMerkle)
     } else {
-        WlKind::Plain
+        (WlKind::Plain, WlKind::Tiered)
     }
+}
+
+fn dusty(price: C, bps: u64) -> bool {
+    let fee = price.1.saturating_mul(bps as u128) / 10_000;
+    fee > 0 && fee < DUST_MAX
 }
 
 impl S {
     fn new() -> S {
         let members: Vec<String> = (20..=29).map(addr).collect();
-        let (root, proofs) = merkle(&members);
+        let (root, proofs) = merkle(&members, true);
+        let (root16, proofs16) = merkle(&members, false);
         S {
             kind: MinterKind::Vending,
             w: World::new(GENESIS),
             factory: String::new(),
             minter: None,
+            sentinel: String::new(),
             wls: vec![],
             mints_ok: 0,
             members,
             root,
             proofs,
+            root16,
+            proofs16,
             finding: None,
+            optin: vec![],
+            g_fmin: (0, 0),
+            g_bps: 0,
+            g_start: None,
+            ever_started: None,
+            g_pub: None,
+            g_disc: None,
+            g_wl: None,
             last_disc_change: None,
+            reanchored: false,
             fmin_denom_at_create: None,
-            dust: false,
+            last_charged: vec![],
+            surface_log: vec![],
+            counts: vec![],
+            wl_prev: vec![],
         }
     }
     fn vname(&self) -> &'static str {
         self.kind.name()
+    }
+    fn opted(&self, f: &str) -> bool {
+        self.optin.iter().any(|x| x == f)
     }
     fn flag(&mut self, op: &str, pred: &str, what: String) {
         if self.finding.is_none() {
@@ -177,10 +438,14 @@ impl S {
         }
     }
 
-    fn exec_raw(&mut self, sender: u64, contract: &str, msg: String, funds: &[(u64, u128)]) -> Result<(), String> {
+    fn exec_raw(&mut self, sender: u64, contract: &str, msg: String, funds: &[C]) -> Result<(), String> {
         for (d, a) in funds {
             self.w.fund(&addr(sender), *d, *a);
         }
+        self.send_raw(sender, contract, msg, funds)
+    }
+    /// execute without crediting the sender first
+    fn send_raw(&mut self, sender: u64, contract: &str, msg: String, funds: &[C]) -> Result<(), String> {
         let coins = World::coins(funds);
         let app = &mut self.w.app;
         let m = WasmMsg::Execute { contract_addr: contract.to_string(), msg: Binary::from(msg.into_bytes()), funds: coins };
@@ -194,39 +459,41 @@ impl S {
     fn mint_msg(&self, buyer: u64) -> String {
         if self.kind.is_merkle() {
             let i = self.members.iter().position(|m| *m == addr(buyer));
-            let proof = i.map(|i| self.proofs[i].clone()).unwrap_or_default();
+            let tiered = self.g_wl.and_then(|k| self.wls.get(k)).map(|g| g.kind == WlKind::TieredMerkle).unwrap_or(false);
+            let proof = i.map(|i| if tiered { self.proofs16[i].clone() } else { self.proofs[i].clone() }).unwrap_or_default();
             json!({"mint": {"stage": null, "proof_hashes": proof, "allocation": null}}).to_string()
         } else {
             json!({"mint": {}}).to_string()
         }
     }
 
-    /// one probe attempt: true = the mint itself succeeded (then rolled back). `self.dust` is set when the mint failed only
-    /// because sg1::distribute_mint_fees produced a zero-amount bank send (a dust network fee; C06's territory).
-    fn attempt(&mut self, buyer: u64, funds: &[(u64, u128)]) -> bool {
+    /// one probe attempt: true = the mint itself succeeded (the sentinel contract behind it was reached; then rolled back)
+    fn attempt(&mut self, buyer: u64, funds: &[C]) -> bool {
         let minter = self.minter.clone().unwrap();
         let mint = WasmMsg::Execute { contract_addr: minter, msg: Binary::from(self.mint_msg(buyer).into_bytes()), funds: World::coins(funds) };
-        let sentinel = WasmMsg::Execute {
-            contract_addr: self.factory.clone(),
-            msg: Binary::from(format!("{{\"{SENTINEL}\":{{}}}}").into_bytes()),
-            funds: vec![],
-        };
+        let sentinel = WasmMsg::Execute { contract_addr: self.sentinel.clone(), msg: Binary::from(b"{}".to_vec()), funds: vec![] };
         let app = &mut self.w.app;
         let msgs: Vec<CosmosMsg> = vec![mint.into(), sentinel.into()];
+        SENTINEL_REACHED.store(false, Ordering::SeqCst);
         match catch(|| app.execute_multi(Addr::unchecked(addr(buyer)), msgs)) {
             Ok(Ok(_)) => panic!("probe sentinel did not fail: the probe mint was committed"),
-            Ok(Err(e)) => {
-                let t = format!("{:#}", e);
-                if std::env::var("C07_DEBUG").is_ok() {
-                    eprintln!("probe {:?}: {}", funds, t);
-                }
-                if t.contains("Cannot transfer empty coins amount") {
-                    self.dust = true;
-                }
-                t.contains(SENTINEL)
-            }
-            Err(_) => false,
+            Ok(Err(_)) | Err(_) => SENTINEL_REACHED.load(Ordering::SeqCst),
         }
+    }
+
+    /// `LAST_DISCOUNT_TIME` through the crate's own typed storage constant (no raw key)
+    fn last_discount(&self, m: &str) -> Option<u64> {
+        let st = self.w.app.contract_storage(&Addr::unchecked(m));
+        let t = match self.kind {
+            MinterKind::Vending => vending_minter::state::LAST_DISCOUNT_TIME.may_load(&*st),
+            MinterKind::VendingFeatured => vending_minter_featured::state::LAST_DISCOUNT_TIME.may_load(&*st),
+            MinterKind::VendingFlex => vending_minter_wl_flex::state::LAST_DISCOUNT_TIME.may_load(&*st),
+            MinterKind::VendingFlexFeatured => vending_minter_wl_flex_featured::state::LAST_DISCOUNT_TIME.may_load(&*st),
+            MinterKind::VendingMerkle => vending_minter_merkle_wl::state::LAST_DISCOUNT_TIME.may_load(&*st),
+            MinterKind::VendingMerkleFeatured => vending_minter_merkle_wl_featured::state::LAST_DISCOUNT_TIME.may_load(&*st),
+            _ => Ok(None),
+        };
+        t.ok().flatten().map(|t| t.nanos())
     }
 
     fn obs(&self) -> Obs {
@@ -240,20 +507,14 @@ impl S {
         if let Some(m) = &self.minter {
             let c = self.w.query(m, &json!({"config": {}})).expect("minter config");
             let q = self.w.query(m, &json!({"mint_price": {}})).expect("mint price query");
-            let last = self
-                .w
-                .dump(m)
-                .iter()
-                .find(|(k, _)| k.as_slice() == b"last_discount_time")
-                .map(|(_, v)| jt(&serde_json::from_slice::<Value>(v).unwrap_or(Value::Null)));
             let wl = match c["whitelist"].as_str() {
-                Some(a) => Some(self.wls.iter().position(|x| x == a).unwrap_or(999_999)),
+                Some(a) => Some(self.wls.iter().position(|x| x.addr == a).unwrap_or(999_999)),
                 None => None,
             };
             o.m = Some(MObs {
                 pubp: jc(&c["mint_price"]),
                 disc: joc(&c["discount_price"]),
-                last,
+                last: self.last_discount(m),
                 start: jt(&c["start_time"]),
                 stop: if c["end_time"].is_null() { None } else { Some(jt(&c["end_time"])) },
                 wl,
@@ -267,21 +528,100 @@ impl S {
         o
     }
 
-    /// is the attached whitelist open right now (the whitelist contract's own answer)
+    /// is the whitelist open right now (the WHITELIST contract's own answer; it is not the contract under test)
     fn wl_active(&self, idx: Option<usize>) -> bool {
         match idx.and_then(|i| self.wls.get(i)) {
-            Some(a) => self.w.query(a, &json!({"config": {}})).map(|v| v["is_active"].as_bool().unwrap_or(false)).unwrap_or(false),
+            Some(g) => self.w.query(&g.addr, &json!({"config": {}})).map(|v| v["is_active"].as_bool().unwrap_or(false)).unwrap_or(false),
             None => false,
         }
     }
-    fn wl_price(&self, idx: usize) -> Option<(u64, u128)> {
-        self.wls.get(idx).and_then(|a| self.w.query(a, &json!({"config": {}})).ok()).map(|v| jc(&v["mint_price"]))
+    /// the price the whitelist contract reports right now
+    fn wl_price(&self, idx: usize) -> Option<C> {
+        self.wls.get(idx).and_then(|g| self.w.query(&g.addr, &json!({"config": {}})).ok()).map(|v| jc(&v["mint_price"]))
+    }
+    /// content of a whitelist contract as it reports it itself: (denom, stages)
+    fn observe_wl(&self, a: &str, kind: WlKind) -> (u64, Vec<(u128, u64, u64)>) {
+        if is_tiered(kind) {
+            let r = self.w.query(a, &json!({"stages": {}})).unwrap_or(Value::Null);
+            let mut d = 0;
+            let mut out = vec![];
+            for s in r["stages"].as_array().cloned().unwrap_or_default() {
+                let sg = &s["stage"];
+                let p = jc(&sg["mint_price"]);
+                d = p.0;
+                out.push((p.1, jt(&sg["start_time"]), jt(&sg["end_time"])));
+            }
+            (d, out)
+        } else {
+            let c = self.w.query(a, &json!({"config": {}})).expect("whitelist config");
+            let p = jc(&c["mint_price"]);
+            (p.0, vec![(p.1, jt(&c["start_time"]), jt(&c["end_time"]))])
+        }
+    }
+    /// the model line that says "whitelist contract k now has this content"
+    fn wlset_line(&self, k: usize) -> String {
+        let g = &self.wls[k];
+        if is_tiered(g.kind) {
+            format!(
+                "wlset k={k} kind=t d={} p={} s={} e={}",
+                g.denom,
+                fmt_list(&g.stages.iter().map(|s| s.0).collect::<Vec<_>>()),
+                fmt_list(&g.stages.iter().map(|s| s.1).collect::<Vec<_>>()),
+                fmt_list(&g.stages.iter().map(|s| s.2).collect::<Vec<_>>())
+            )
+        } else {
+            let s = g.stages[0];
+            format!("wlset k={k} kind=p d={} p={} s={} e={}", g.denom, s.0, s.1, s.2)
+        }
+    }
+
+    fn create_wl(&mut self, kind: WlKind, d: u64, stages: &[(u128, u64, u64)]) -> Option<usize> {
+        let sts: Vec<WlStage> = stages
+            .iter()
+            .map(|(p, s, e)| WlStage {
+                start: *s,
+                end: *e,
+                mint_price: (d, *p),
+                per_address_limit: 3,
+                mint_count_limit: None,
+                members: (20..=29).map(|a| (a, 3)).collect(),
+                merkle_root: if kind == WlKind::TieredMerkle { self.root16.clone() } else { self.root.clone() },
+            })
+            .collect();
+        if sts.is_empty() {
+            return None;
+        }
+        let a = WlArgs { admin: ADMIN, member_limit: 1000, admins_mutable: true, whale_cap: None, stages: sts };
+        match self.w.new_whitelist(kind, &a) {
+            Ok(addr_) => {
+                let (dd, st) = self.observe_wl(&addr_, kind);
+                self.wls.push(WlG { addr: addr_, kind, denom: dd, stages: st });
+                Some(self.wls.len() - 1)
+            }
+            Err(e) => {
+                if std::env::var("C07_DEBUG").is_ok() {
+                    eprintln!("whitelist {kind:?} not created: {e}");
+                }
+                None
+            }
+        }
+    }
+
+    /// a message to whitelist contract k from its admin; afterwards the ghost is refreshed from the contract's own report
+    fn wl_admin(&mut self, k: usize, msg: Value) -> bool {
+        let Some(g) = self.wls.get(k).cloned() else { return false };
+        let r = self.w.exec(&addr(ADMIN), &g.addr, &msg, &[]).is_ok();
+        let (d, st) = self.observe_wl(&g.addr, g.kind);
+        self.wls[k].denom = d;
+        self.wls[k].stages = st;
+        r
     }
 
     fn do_probe(&mut self) -> String {
         if self.minter.is_none() {
             return "probe none".into();
         }
+        self.finding = None;
         let before = self.w.dump(self.minter.as_ref().unwrap());
         let o = self.obs();
         let m = o.m.clone().unwrap();
@@ -289,11 +629,9 @@ impl S {
         for d in [cur.0, cur.0 + 7] {
             self.w.fund(&addr(PROBE_BUYER), d, cur.1.saturating_add(2));
         }
-        let f = |d: u64, a: u128| -> Vec<(u64, u128)> { if a == 0 { vec![] } else { vec![(d, a)] } };
+        let f = |d: u64, a: u128| -> Vec<C> { if a == 0 { vec![] } else { vec![(d, a)] } };
         let lo = if cur.1 == 0 { None } else { Some(self.attempt(PROBE_BUYER, &f(cur.0, cur.1 - 1))) };
-        self.dust = false;
         let eq = self.attempt(PROBE_BUYER, &f(cur.0, cur.1));
-        let eq_dust = self.dust;
         let hi = self.attempt(PROBE_BUYER, &f(cur.0, cur.1 + 1));
         let wd = self.attempt(PROBE_BUYER, &f(cur.0 + 7, cur.1.max(1)));
         if self.w.dump(self.minter.as_ref().unwrap()) != before {
@@ -301,16 +639,18 @@ impl S {
         }
         // ---- monitors on the real price
         let now = self.w.time();
-        let wl_active = self.wl_active(m.wl);
-        let gate = (wl_active || now >= m.start) && m.stop.map(|e| now < e).unwrap_or(true);
+        let wl_active = self.wl_active(self.g_wl);
+        let gate = (wl_active || self.g_start.map(|s| now >= s).unwrap_or(false)) && m.stop.map(|e| now < e).unwrap_or(true);
+        let is_dust = dusty(cur, self.g_bps);
         if lo == Some(true) || hi || wd {
             self.flag("mint", "charged-ne-queried", format!("MintPrice.current_price={} but a mint paying lo={:?} hi={} wrongdenom={} was accepted", rc(&cur), lo, hi, wd));
         }
-        if gate && !eq && !eq_dust {
+        if gate && !eq && !is_dust {
             self.flag("mint", "queried-price-rejected", format!("mint window open, MintPrice.current_price={} but paying exactly that was rejected", rc(&cur)));
         }
         if !wl_active {
-            // a public buyer: whatever was accepted must not exceed the advertised public price
+            // a public buyer: whatever was accepted must not exceed the public price (the advertised one AND the one the harness set)
+            let pubs: Vec<C> = [Some(m.qpub), self.g_pub].into_iter().flatten().collect();
             let mut accepted: Vec<u128> = vec![];
             if lo == Some(true) {
                 accepted.push(cur.1 - 1)
@@ -321,30 +661,79 @@ impl S {
             if hi {
                 accepted.push(cur.1 + 1)
             }
-            if let Some(a) = accepted.iter().find(|a| **a > m.qpub.1) {
-                self.flag("mint", "charged-above-public", format!("public buyer charged {a} > advertised public price {}", rc(&m.qpub)));
-            }
-            if eq && cur.0 != m.qpub.0 {
-                self.flag("mint", "charged-above-public", format!("public buyer charged in denom {} but public price is {}", cur.0, rc(&m.qpub)));
+            for p in pubs {
+                if let Some(a) = accepted.iter().find(|a| **a > p.1) {
+                    self.flag("mint", "charged-above-public", format!("public buyer charged {a} > public price {}", rc(&p)));
+                }
+                if eq && cur.1 != 0 && cur.0 != p.0 {
+                    self.flag("mint", "charged-above-public", format!("public buyer charged in denom {} but the public price is {}", cur.0, rc(&p)));
+                }
             }
         }
         let b = |x: bool| if x { "1" } else { "0" };
-        format!("probe cur={} lo={} eq={} hi={} wd={}", rc(&cur), lo.map(|x| b(x).to_string()).unwrap_or("-".into()), b(eq), b(hi), b(wd))
+        let los = lo.map(|x| b(x).to_string()).unwrap_or("-".into());
+        if is_dust {
+            format!("probe cur={} lo={} eq=* hi={} wd={} ## eqd={}", rc(&cur), los, b(hi), b(wd), b(eq))
+        } else {
+            format!("probe cur={} lo={} eq={} hi={} wd={} ## eqd=-", rc(&cur), los, b(eq), b(hi), b(wd))
+        }
     }
 
+    /// minter `migrate` with the stored cw2 version rewritten to va.vb.vc (through cw2's own accessors)
     fn do_migrate(&mut self, va: u64, vb: u64, vc: u64) -> bool {
         let Some(m) = self.minter.clone() else { return false };
-        let key = b"contract_info".to_vec();
-        let old = self.w.dump(&m).into_iter().find(|(k, _)| *k == key).map(|(_, v)| v).expect("contract_info");
-        let mut info: Value = serde_json::from_slice(&old).unwrap();
-        info["version"] = json!(format!("{va}.{vb}.{vc}"));
-        self.w.app.contract_storage_mut(&Addr::unchecked(&m)).set(&key, info.to_string().as_bytes());
+        let a = Addr::unchecked(&m);
+        let old = {
+            let st = self.w.app.contract_storage(&a);
+            cw2::get_contract_version(&*st).expect("cw2 contract version")
+        };
+        {
+            let mut st = self.w.app.contract_storage_mut(&a);
+            cw2::set_contract_version(&mut *st, old.contract.clone(), format!("{va}.{vb}.{vc}")).expect("set version");
+        }
         let code = self.w.codes.minters[self.kind.idx()];
         let r = self.w.migrate(&addr(ADMIN), &m, code, &json!({}));
         if r.is_err() {
-            self.w.app.contract_storage_mut(&Addr::unchecked(&m)).set(&key, &old);
+            let mut st = self.w.app.contract_storage_mut(&a);
+            cw2::set_contract_version(&mut *st, old.contract, old.version).expect("restore version");
         }
         r.is_ok()
+    }
+
+    /// every ExecuteMsg variant of this minter crate that has no protocol op of its own, from a stranger and from the admin.
+    /// The variants come from the crate's JSON schema at run time; an unknown one is built from the schema (two argument
+    /// sizes, optional fields absent and filled) and sent under the same state monitors.
+    fn do_surface(&mut self) {
+        self.surface_log.clear();
+        let Some(minter) = self.minter.clone() else { return };
+        let schema = exec_schema(self.kind);
+        let mut vars: Vec<(String, Value)> = variants_of(&schema).into_iter().filter(|(n, _)| !MODELLED.contains(&n.as_str())).collect();
+        let rank = |n: &str| OTHER_TODAY.iter().position(|x| *x == n).map(|i| i + 1).unwrap_or(0);
+        vars.sort_by_key(|(n, _)| rank(n));
+        let big = self.g_pub.map(|p| p.1).unwrap_or(0).saturating_add(1_000_003);
+        for (name, node) in vars {
+            let known = OTHER_TODAY.contains(&name.as_str());
+            let mut shapes: Vec<Value> = vec![build_variant(&schema, &name, &node, 1, false)];
+            if !known {
+                shapes.push(build_variant(&schema, &name, &node, big, false));
+                shapes.push(build_variant(&schema, &name, &node, 1, true));
+                shapes.push(build_variant(&schema, &name, &node, big, true));
+                shapes.dedup();
+            }
+            for (sender, sname) in [(STRANGER, "str"), (ADMIN, "adm")] {
+                let mut any_ok = false;
+                for msg in &shapes {
+                    let pre = self.obs();
+                    let r = self.exec_raw(sender, &minter, msg.to_string(), &[]).is_ok();
+                    any_ok |= r;
+                    let post = self.obs();
+                    if pre.price_state() != post.price_state() {
+                        self.flag("surface", &format!("{name}/price-state-changed"), format!("`{msg}` from {sname} (accepted={r}) changed the price state: {} -> {}", pre.render_p(), post.render_p()));
+                    }
+                }
+                self.surface_log.push((name.clone(), sname, any_ok, known));
+            }
+        }
     }
 }
 
@@ -353,12 +742,16 @@ impl Sut for S {
         let kind = MinterKind::from_idx(kv_u64(header, "kind").unwrap() as usize);
         let now = kv_u64(header, "now").unwrap();
         let mut w = World::new(now);
+        let code = w.app.store_code(sentinel_box());
+        let sentinel = w.instantiate(code, &addr(GOV), &json!({}), &[], None).expect("sentinel");
         let mut p = w.default_params(kind);
         p.min_mint_price = (kv_u64(header, "fd").unwrap(), kv_u128(header, "fmin").unwrap());
         p.airdrop_mint_price = (0, kv_u128(header, "air").unwrap());
         p.max_per_address_limit = 50;
         p.mint_fee_bps = kv_u64(header, "bps").unwrap();
-        let factory = w.new_factory(kind.factory(), &p).expect("factory");
+        // instantiated here (not through `World::new_factory`) so that the factory has a wasm admin and can be migrated
+        let fcode = w.factory_code(kind.factory());
+        let factory = w.instantiate(fcode, &addr(GOV), &json!({"params": p.to_json(kind.factory())}), &[], Some(&addr(GOV))).expect("factory");
         for b in 20..=29u64 {
             for d in [0u64, 1, 2] {
                 w.fund(&addr(b), d, 1u128 << 110);
@@ -367,48 +760,109 @@ impl Sut for S {
         self.kind = kind;
         self.w = w;
         self.factory = factory;
+        self.sentinel = sentinel;
         self.minter = None;
         self.wls = vec![];
         self.mints_ok = 0;
         self.finding = None;
+        self.optin = kv(header, "optin").map(|s| s.split(',').map(String::from).collect()).unwrap_or_default();
+        self.g_fmin = p.min_mint_price;
+        self.g_bps = p.mint_fee_bps;
+        self.g_start = None;
+        self.ever_started = None;
+        self.g_pub = None;
+        self.g_disc = None;
+        self.g_wl = None;
         self.last_disc_change = None;
+        self.reanchored = false;
         self.fmin_denom_at_create = None;
+        self.last_charged = vec![];
+        self.surface_log = vec![];
         (header.to_string(), "case".to_string())
     }
 
     fn exec(&mut self, line: &str) -> (String, String) {
         self.finding = None;
         let op = line.split_whitespace().next().unwrap_or("");
+        if op == "probe" {
+            return (line.to_string(), self.do_probe());
+        }
         let before = self.obs();
         let now = self.w.time();
         let by = kv_u64(line, "by").unwrap_or(ADMIN);
-        let paid: Vec<(u64, u128)> = if kv_bool(line, "paid") == Some(true) { vec![(0, 1)] } else { vec![] };
+        let paid: Vec<C> = if kv_bool(line, "paid") == Some(true) { vec![(0, 1)] } else { vec![] };
         let minter = self.minter.clone().unwrap_or_else(|| "contract999".to_string());
+        let mut model_line = line.to_string();
+        let mut tag: Option<&str> = None;
+        let mut show_st = false;
         let ok: bool = match op {
-            "probe" => return (line.to_string(), self.do_probe()),
             "t" => {
                 self.w.set_time(kv_u64(line, "now").unwrap());
+                tag = Some("env");
                 true
             }
-            "wl" => {
-                let st = WlStage {
-                    start: kv_u64(line, "s").unwrap(),
-                    end: kv_u64(line, "e").unwrap(),
-                    mint_price: (kv_u64(line, "d").unwrap(), kv_u128(line, "p").unwrap()),
-                    per_address_limit: 3,
-                    mint_count_limit: None,
-                    members: (20..=29).map(|a| (a, 3)).collect(),
-                    merkle_root: self.root.clone(),
+            // ---------------------------------------------------------------- whitelist contracts (environment)
+            "wl" | "wlt" => {
+                tag = Some("env");
+                let d = kv_u64(line, "d").unwrap();
+                let (pk, tk) = wl_kinds(self.kind);
+                let made = if op == "wl" {
+                    self.create_wl(pk, d, &[(kv_u128(line, "p").unwrap(), kv_u64(line, "s").unwrap(), kv_u64(line, "e").unwrap())])
+                } else {
+                    let ps = kv_list(line, "p").unwrap();
+                    let ss = kv_list(line, "s").unwrap();
+                    let es = kv_list(line, "e").unwrap();
+                    let st: Vec<(u128, u64, u64)> = ps.iter().zip(ss.iter()).zip(es.iter()).map(|((p, s), e)| (*p, *s as u64, *e as u64)).collect();
+                    self.create_wl(tk, d, &st)
                 };
-                let a = WlArgs { admin: ADMIN, member_limit: 1000, admins_mutable: true, whale_cap: None, stages: vec![st] };
-                match self.w.new_whitelist(wl_kind(self.kind), &a) {
-                    Ok(addr_) => {
-                        self.wls.push(addr_);
-                        true
-                    }
-                    Err(_) => false,
-                }
+                model_line = match made {
+                    Some(k) => self.wlset_line(k),
+                    None => "noop".into(),
+                };
+                made.is_some()
             }
+            "wltime" | "wlstage" | "wladd" | "wlrm" => {
+                tag = Some("env");
+                let k = kv_u64(line, "k").unwrap() as usize;
+                let ts = |x: Option<Option<u64>>| x.flatten().map(|t| Value::String(t.to_string())).unwrap_or(Value::Null);
+                let kind = self.wls.get(k).map(|g| g.kind);
+                let msg = match op {
+                    "wltime" => {
+                        let t = kv_u64(line, "t").unwrap().to_string();
+                        if kv(line, "which") == Some("s") {
+                            json!({"update_start_time": t})
+                        } else {
+                            json!({"update_end_time": t})
+                        }
+                    }
+                    "wlstage" => {
+                        let mut m = json!({"stage_id": kv_u64(line, "i").unwrap(), "start_time": ts(kv_opt_u64(line, "s")), "end_time": ts(kv_opt_u64(line, "e"))});
+                        if let Some(Some(p)) = kv_opt_u128(line, "p") {
+                            let d = kv_opt_u64(line, "d").flatten().or(self.wls.get(k).map(|g| g.denom)).unwrap_or(0);
+                            m["mint_price"] = jcoin((d, p));
+                        }
+                        json!({"update_stage_config": m})
+                    }
+                    "wladd" => {
+                        let d = self.wls.get(k).map(|g| g.denom).unwrap_or(0);
+                        let mut st = json!({"name": "added", "start_time": kv_u64(line, "s").unwrap().to_string(), "end_time": kv_u64(line, "e").unwrap().to_string(),
+                            "mint_price": jcoin((d, kv_u128(line, "p").unwrap())), "mint_count_limit": null});
+                        let members: Vec<Value> = if kind == Some(WlKind::TieredFlex) {
+                            (20..=29).map(|a| json!({"address": addr(a), "mint_count": 3})).collect()
+                        } else {
+                            st["per_address_limit"] = json!(3);
+                            (20..=29).map(|a| Value::String(addr(a))).collect()
+                        };
+                        json!({"add_stage": {"stage": st, "members": members}})
+                    }
+                    _ => json!({"remove_stage": {"stage_id": kv_u64(line, "i").unwrap()}}),
+                };
+                self.wl_prev = self.wls.get(k).map(|g| g.stages.iter().map(|s| s.0).collect()).unwrap_or_default();
+                let r = self.wl_admin(k, msg);
+                model_line = if k < self.wls.len() { self.wlset_line(k) } else { "noop".into() };
+                r
+            }
+            // ---------------------------------------------------------------- the operations of the property
             "create" => {
                 let p = self.w.default_params(self.kind);
                 let mut a = self.w.default_create(self.kind, &p);
@@ -423,7 +877,7 @@ impl Sut for S {
                 } else {
                     a.num_tokens = Some(100);
                 }
-                a.whitelist = kv_opt_u64(line, "wl").unwrap().map(|k| self.wls.get(k as usize).cloned().unwrap_or_else(|| "contract999".into()));
+                a.whitelist = kv_opt_u64(line, "wl").unwrap().map(|k| self.wls.get(k as usize).map(|g| g.addr.clone()).unwrap_or_else(|| "contract999".into()));
                 a.funds = vec![(0, CREATION_FEE)];
                 self.w.fund(&addr(by), 0, CREATION_FEE);
                 if self.minter.is_some() {
@@ -434,35 +888,106 @@ impl Sut for S {
                             self.minter = Some(m);
                             true
                         }
-                        Err(_) => {
-                            // the fee was not spent: take it back so balances do not drift
-                            false
-                        }
+                        Err(_) => false,
                     }
                 }
             }
-            "ump" => self.exec_raw(by, &minter, format!("{{\"update_mint_price\":{{\"price\":\"{}\"}}}}", kv_u128(line, "p").unwrap()), &paid).is_ok(),
-            "udp" => self.exec_raw(by, &minter, format!("{{\"update_discount_price\":{{\"price\":\"{}\"}}}}", kv_u128(line, "p").unwrap()), &paid).is_ok(),
-            "rdp" => self.exec_raw(by, &minter, "{\"remove_discount_price\":{}}".to_string(), &paid).is_ok(),
+            "ump" => self.exec_raw(by, &minter, json!({"update_mint_price": {"price": kv_u128(line, "p").unwrap().to_string()}}).to_string(), &paid).is_ok(),
+            "udp" => self.exec_raw(by, &minter, json!({"update_discount_price": {"price": kv_u128(line, "p").unwrap().to_string()}}).to_string(), &paid).is_ok(),
+            "rdp" => self.exec_raw(by, &minter, json!({"remove_discount_price": {}}).to_string(), &paid).is_ok(),
             "swl" => {
                 let k = kv_u64(line, "k").unwrap() as usize;
-                let wl = self.wls.get(k).cloned().unwrap_or_else(|| "contract999".into());
+                let wl = self.wls.get(k).map(|g| g.addr.clone()).unwrap_or_else(|| "contract999".into());
                 self.exec_raw(by, &minter, json!({"set_whitelist": {"whitelist": wl}}).to_string(), &paid).is_ok()
             }
-            "ust" => self.exec_raw(by, &minter, format!("{{\"update_start_time\":\"{}\"}}", kv_u64(line, "t").unwrap()), &paid).is_ok(),
+            "ust" => self.exec_raw(by, &minter, json!({"update_start_time": kv_u64(line, "t").unwrap().to_string()}).to_string(), &paid).is_ok(),
+            "uet" => {
+                tag = Some("env");
+                let r = self.exec_raw(by, &minter, json!({"update_end_time": kv_u64(line, "t").unwrap().to_string()}).to_string(), &paid).is_ok();
+                let stop = self.obs().m.and_then(|m| m.stop);
+                model_line = format!("setstop e={}", fmt_opt(&stop));
+                r
+            }
             "sudomin" => {
                 let c = (kv_u64(line, "d").unwrap(), kv_u128(line, "a").unwrap());
                 self.w.sudo(&self.factory.clone(), &json!({"update_params": {"min_mint_price": jcoin(c), "extension": {}}})).is_ok()
             }
             "sudoair" => {
+                tag = Some("env");
+                show_st = true;
                 let c = (kv_u64(line, "d").unwrap(), kv_u128(line, "a").unwrap());
                 self.w.sudo(&self.factory.clone(), &json!({"update_params": {"extension": {"airdrop_mint_price": jcoin(c)}}})).is_ok()
             }
+            "sudofee" => {
+                tag = Some("env");
+                let b = kv_u64(line, "bps").unwrap();
+                let r = self.w.sudo(&self.factory.clone(), &json!({"update_params": {"mint_fee_bps": b, "extension": {}}})).is_ok();
+                if r {
+                    self.g_bps = b;
+                } else {
+                    model_line = "noop".into();
+                }
+                r
+            }
+            "facmig" => {
+                let d = kv_opt_u64(line, "d").unwrap();
+                let a = kv_opt_u128(line, "a").unwrap();
+                let b = kv_opt_u64(line, "bps").unwrap();
+                let min: Option<C> = match (d, a) {
+                    (Some(d), Some(a)) => Some((d, a)),
+                    _ => None,
+                };
+                let msg = if min.is_none() && b.is_none() {
+                    Value::Null
+                } else {
+                    let mut m = json!({"extension": {}});
+                    if let Some(c) = min {
+                        m["min_mint_price"] = jcoin(c);
+                    }
+                    if let Some(b) = b {
+                        m["mint_fee_bps"] = json!(b);
+                    }
+                    m
+                };
+                let code = self.w.factory_code(self.kind.factory());
+                let f = self.factory.clone();
+                let r = self.w.migrate(&addr(GOV), &f, code, &msg).is_ok();
+                if r {
+                    if let Some(b) = b {
+                        self.g_bps = b;
+                    }
+                }
+                r
+            }
             "mint" => {
                 let buyer = kv_u64(line, "buyer").unwrap();
-                let funds: Vec<(u64, u128)> = kv_pairs(line, "funds").unwrap().into_iter().map(|(d, a)| (d as u64, a)).collect();
+                let funds: Vec<C> = kv_pairs(line, "funds").unwrap().into_iter().map(|(d, a)| (d as u64, a)).collect();
+                if let Some(bm) = &before.m {
+                    if dusty(bm.qcur, self.g_bps) && funds == vec![bm.qcur] {
+                        tag = Some("dust");
+                        show_st = true;
+                    }
+                }
+                for (d, a) in &funds {
+                    self.w.fund(&addr(buyer), *d, *a);
+                }
+                let mut denoms: Vec<u64> = funds.iter().map(|f| f.0).collect();
+                if let Some(bm) = &before.m {
+                    denoms.push(bm.qcur.0);
+                    denoms.push(bm.pubp.0);
+                }
+                denoms.sort();
+                denoms.dedup();
+                let b0: Vec<u128> = denoms.iter().map(|d| self.w.balance(&addr(buyer), *d)).collect();
                 let msg = self.mint_msg(buyer);
-                let r = self.exec_raw(buyer, &minter, msg, &funds).is_ok();
+                let r = self.send_raw(buyer, &minter, msg, &funds).is_ok();
+                // what the mint really cost: the buyer's balance difference, per denom
+                self.last_charged = denoms
+                    .iter()
+                    .zip(b0.iter())
+                    .map(|(d, b)| (*d, b.saturating_sub(self.w.balance(&addr(buyer), *d))))
+                    .filter(|(_, x)| *x != 0)
+                    .collect();
                 if r {
                     self.mints_ok += 1;
                 }
@@ -471,47 +996,149 @@ impl Sut for S {
             "migrate" => {
                 let v = (kv_u64(line, "va").unwrap(), kv_u64(line, "vb").unwrap(), kv_u64(line, "vc").unwrap());
                 let r = self.do_migrate(v.0, v.1, v.2);
-                if r && v < (3, 9, 0) {
-                    // a pre-3.9.0 contract cannot have had a discount change: the anchor is re-initialised like at instantiate
-                    self.last_disc_change = None;
+                if r && v < (3, 9, 0) && self.kind.is_vending() {
+                    // the contract re-anchors LAST_DISCOUNT_TIME at now − 12 h (C07X_migrate_reanchor_counterexample): the next
+                    // discount change is exempt from the cooldown monitor — counted, and only that one
+                    self.reanchored = true;
                 }
                 r
+            }
+            "surface" => {
+                tag = Some("env");
+                self.do_surface();
+                true
             }
             _ => return (line.to_string(), "bad-op".into()),
         };
         let after = self.obs();
+        self.monitors(op, line, ok, &before, &after, now);
+        let tag = tag.unwrap_or(if ok { "ok" } else { "err" });
+        let st = if show_st { if ok { "st=ok " } else { "st=err " } } else { "" };
+        (model_line, format!("{tag} {} ## {st}{}", after.render_p(), after.render_d()))
+    }
 
-        // ------------------------------------------------------------------ monitors (transcription of the property)
-        let fmin = before.fmin; // the minimum in force at that moment (none of the ops below changes it)
+    fn monitor(&mut self) -> Option<(String, String)> {
+        self.finding.take()
+    }
+}
+
+
+// ------------------------------------------------------------------------------------------------ monitors (transcription of the property)
+
+impl S {
+    /// Called after every op. `before` / `after` are observations of the contracts; everything the property quantifies over
+    /// ("the factory minimum in force", "the public price", "once the mint has started", "the previous discount change") is
+    /// taken from the GHOST record of what this harness itself set by messages that were accepted.
+    fn monitors(&mut self, op: &str, line: &str, ok: bool, before: &Obs, after: &Obs, now: u64) {
+        let fmin = self.g_fmin; // the minimum in force at that moment
+        if self.minter.is_some() && op != "create" && self.ever_started.is_none() && self.g_start.map(|s| now >= s).unwrap_or(false) {
+            self.ever_started = Some(now);
+        }
+        let started = self.ever_started.is_some();
+        let (pub0, disc0, wl0) = (self.g_pub, self.g_disc, self.g_wl);
+        let in_projection = matches!(op, "create" | "ump" | "udp" | "rdp" | "swl" | "ust" | "sudomin" | "facmig" | "mint");
+
+        // ---------------------------------------------------------------- 1. what an ACCEPTED operation did, against the clauses
         if ok {
             match op {
                 "create" => {
                     let p = (kv_u64(line, "d").unwrap(), kv_u128(line, "p").unwrap());
+                    let wl = kv_opt_u64(line, "wl").unwrap().map(|k| k as usize);
                     self.fmin_denom_at_create = Some(fmin.0);
+                    self.g_pub = Some(p);
+                    self.g_disc = None;
+                    self.g_start = kv_u64(line, "s");
+                    self.g_wl = wl;
                     if p.1 < fmin.1 {
                         self.flag("create", "below-floor", format!("minter created with price {} below factory minimum {}", rc(&p), rc(&fmin)));
                     }
                     if p.0 != fmin.0 {
                         self.flag("create", "denom-differs-from-factory-min", format!("minter created with price {} but factory minimum is {}", rc(&p), rc(&fmin)));
                     }
-                }
-                "ump" | "udp" => {
-                    let p = kv_u128(line, "p").unwrap();
-                    let set = if op == "ump" { after.m.as_ref().map(|m| m.pubp) } else { after.m.as_ref().and_then(|m| m.disc) };
-                    if p < fmin.1 {
-                        self.flag(op, "below-floor", format!("price {p} accepted below factory minimum {}", rc(&fmin)));
-                    }
-                    if let Some(s) = set {
-                        if s.0 != fmin.0 {
-                            // the one recorded finding is the history "governance switched the factory minimum's denom after
-                            // this minter was created"; a mismatch with no such switch is a different (new) violation
-                            let pred = if self.fmin_denom_at_create.is_some() && self.fmin_denom_at_create != Some(fmin.0) { "denom-differs-from-factory-min-after-governance-denom-switch" } else { "denom-differs-from-factory-min" };
-                            self.flag(op, pred, format!("price {} set while the factory minimum in force is {}", rc(&s), rc(&fmin)));
+                    // reported, undecided (docs/C07.md "Reported" 2): the whitelist named at creation is not compared with the floor.
+                    // Raised only in cases whose header opts in.
+                    if let (Some(k), true) = (wl, self.opted("cwl")) {
+                        if let Some(g) = self.wls.get(k).cloned() {
+                            if let Some(s) = g.stages.iter().find(|s| s.0 < fmin.1) {
+                                self.flag("create", "whitelist-below-floor", format!("minter created with whitelist {k} whose price {}:{} is below the factory minimum {}", g.denom, s.0, rc(&fmin)));
+                            }
+                            if g.denom != fmin.0 {
+                                self.flag("create", "whitelist-denom-differs-from-factory-min", format!("minter created with whitelist {k} priced in denom {} but the factory minimum is {}", g.denom, rc(&fmin)));
+                            }
                         }
                     }
                 }
+                "ump" => {
+                    let p = kv_u128(line, "p").unwrap();
+                    let old = pub0.unwrap_or((fmin.0, 0));
+                    self.g_pub = Some((old.0, p));
+                    if p < fmin.1 {
+                        self.flag(op, "below-floor", format!("price {p} accepted below factory minimum {}", rc(&fmin)));
+                    }
+                    if old.0 != fmin.0 {
+                        // the one recorded finding is the history "governance switched the factory minimum's denom after this
+                        // minter was created"; a mismatch with no such switch is a different (new) violation
+                        let pred = if self.fmin_denom_at_create.is_some() && self.fmin_denom_at_create != Some(fmin.0) { "denom-differs-from-factory-min-after-governance-denom-switch" } else { "denom-differs-from-factory-min" };
+                        self.flag(op, pred, format!("price {}:{p} set while the factory minimum in force is {}", old.0, rc(&fmin)));
+                    }
+                    if started && p >= old.1 {
+                        self.flag(op, "raised-after-start", format!("UpdateMintPrice at {now} (started at {:?}) accepted {p}, not below the public price {}", self.g_start, rc(&old)));
+                    }
+                    // a standing discount may stay or be dropped (never changed); whichever it is becomes the record
+                    if let Some(am) = &after.m {
+                        if am.disc != disc0 && am.disc.is_some() {
+                            self.flag(op, "discount-changed", format!("UpdateMintPrice turned the discount {} into {}", roc(&disc0), roc(&am.disc)));
+                        }
+                        self.g_disc = am.disc;
+                    }
+                }
+                "udp" => {
+                    let p = kv_u128(line, "p").unwrap();
+                    let pubp = pub0.unwrap_or((fmin.0, 0));
+                    self.g_disc = Some((pubp.0, p));
+                    if !started {
+                        self.flag("udp", "before-start", format!("discount set at {now} before start {:?}", self.g_start));
+                    }
+                    if p > pubp.1 {
+                        self.flag("udp", "above-public", format!("discount {p} set above public price {}", rc(&pubp)));
+                    }
+                    if p < fmin.1 {
+                        self.flag(op, "below-floor", format!("discount {p} accepted below factory minimum {}", rc(&fmin)));
+                    }
+                    if pubp.0 != fmin.0 {
+                        let pred = if self.fmin_denom_at_create.is_some() && self.fmin_denom_at_create != Some(fmin.0) { "denom-differs-from-factory-min-after-governance-denom-switch" } else { "denom-differs-from-factory-min" };
+                        self.flag(op, pred, format!("discount {}:{p} set while the factory minimum in force is {}", pubp.0, rc(&fmin)));
+                    }
+                    if let Some(l) = self.last_disc_change {
+                        if now < l + H12 {
+                            if self.reanchored {
+                                self.counts.push("cooldown-exempt-after-pre-3.9.0-migrate".into());
+                            } else {
+                                self.flag("udp", "cooldown", format!("discount changed at {now}, less than 12 h after the previous change at {l}"));
+                            }
+                        }
+                    }
+                    self.last_disc_change = Some(now);
+                    self.reanchored = false;
+                }
+                "rdp" => {
+                    self.g_disc = None;
+                    if let Some(l) = self.last_disc_change {
+                        if now < l + HOUR {
+                            if self.reanchored {
+                                self.counts.push("cooldown-exempt-after-pre-3.9.0-migrate".into());
+                            } else {
+                                self.flag("rdp", "cooldown", format!("discount removed at {now}, less than 1 h after the previous change at {l}"));
+                            }
+                        }
+                    }
+                    self.last_disc_change = Some(now);
+                    self.reanchored = false;
+                }
                 "swl" => {
                     let k = kv_u64(line, "k").unwrap() as usize;
+                    self.g_wl = Some(k);
+                    // the price the WHITELIST contract reports at this moment (what "attaching a whitelist … with a price" means)
                     if let Some(wp) = self.wl_price(k) {
                         if wp.1 < fmin.1 {
                             self.flag("swl", "below-floor", format!("whitelist with price {} attached below factory minimum {}", rc(&wp), rc(&fmin)));
@@ -520,87 +1147,107 @@ impl Sut for S {
                             self.flag("swl", "denom-differs-from-factory-min", format!("whitelist with price {} attached, factory minimum is {}", rc(&wp), rc(&fmin)));
                         }
                     }
+                    // reported, undecided: only the stage the whitelist reports is compared; opt-in
+                    if self.opted("tier") {
+                        if let Some(g) = self.wls.get(k).cloned() {
+                            if let Some(s) = g.stages.iter().find(|s| s.0 < fmin.1) {
+                                self.flag("swl", "tiered-stage-below-floor", format!("tiered whitelist {k} attached; its stage price {}:{} is below the factory minimum {}", g.denom, s.0, rc(&fmin)));
+                            }
+                        }
+                    }
+                }
+                "ust" => self.g_start = kv_u64(line, "t"),
+                "sudomin" => self.g_fmin = (kv_u64(line, "d").unwrap(), kv_u128(line, "a").unwrap()),
+                "facmig" => {
+                    if let (Some(Some(d)), Some(Some(a))) = (kv_opt_u64(line, "d"), kv_opt_u128(line, "a")) {
+                        self.g_fmin = (d, a);
+                    }
+                }
+                "wlstage" | "wladd" | "wlrm" | "wltime" => {
+                    // reported, undecided: the admin of an ATTACHED whitelist lowers its price below the floor afterwards; opt-in
+                    let k = kv_u64(line, "k").unwrap() as usize;
+                    if self.opted("wlmut") && self.g_wl == Some(k) {
+                        if let Some(g) = self.wls.get(k).cloned() {
+                            let prev = self.wl_prev.clone();
+                            if let Some((_, s)) = g.stages.iter().enumerate().find(|(i, s)| s.0 < fmin.1 && prev.get(*i) != Some(&s.0)) {
+                                self.flag(op, "attached-whitelist-price-below-floor", format!("whitelist {k} is attached to the minter; its admin set a stage price {}:{} below the factory minimum {}", g.denom, s.0, rc(&fmin)));
+                            }
+                        }
+                    }
+                }
+                "mint" => {
+                    // a real mint: what left the buyer's account vs what the query advertised just before
+                    let bm = before.m.as_ref().unwrap();
+                    let expect: Vec<C> = if bm.qcur.1 == 0 { vec![] } else { vec![bm.qcur] };
+                    if self.last_charged != expect {
+                        self.flag("mint", "charged-ne-queried", format!("the mint took {:?} from the buyer but MintPrice.current_price was {}", self.last_charged, rc(&bm.qcur)));
+                    }
+                    if !self.wl_active(wl0) {
+                        for p in [Some(bm.qpub), pub0].into_iter().flatten() {
+                            if let Some(c) = self.last_charged.iter().find(|c| c.1 > p.1 || c.0 != p.0) {
+                                self.flag("mint", "charged-above-public", format!("public buyer charged {} but the public price is {}", rc(c), rc(&p)));
+                            }
+                        }
+                    }
                 }
                 _ => {}
             }
-            // discount rules, against the harness's own record of discount changes
-            if op == "udp" {
-                let bm = before.m.as_ref().unwrap();
-                let p = kv_u128(line, "p").unwrap();
-                if now < bm.start {
-                    self.flag("udp", "before-start", format!("discount set at {now} before start {}", bm.start));
-                }
-                if p > bm.pubp.1 {
-                    self.flag("udp", "above-public", format!("discount {p} set above public price {}", rc(&bm.pubp)));
-                }
-                if let Some(l) = self.last_disc_change {
-                    if now < l + H12 {
-                        self.flag("udp", "cooldown", format!("discount changed at {now}, less than 12 h after the previous change at {l}"));
-                    }
-                }
-                self.last_disc_change = Some(now);
-            }
-            if op == "rdp" {
-                if let Some(l) = self.last_disc_change {
-                    if now < l + HOUR {
-                        self.flag("rdp", "cooldown", format!("discount removed at {now}, less than 1 h after the previous change at {l}"));
-                    }
-                }
-                self.last_disc_change = Some(now);
-            }
-            if op == "mint" {
-                // a real mint: what was charged vs what the query advertised just before
-                let bm = before.m.as_ref().unwrap();
-                let funds: Vec<(u64, u128)> = kv_pairs(line, "funds").unwrap().into_iter().map(|(d, a)| (d as u64, a)).collect();
-                let charged = funds.first().cloned().unwrap_or((bm.qcur.0, 0));
-                if charged.1 != bm.qcur.1 || (charged.1 != 0 && charged.0 != bm.qcur.0) {
-                    self.flag("mint", "charged-ne-queried", format!("mint accepted {} but MintPrice.current_price was {}", rc(&charged), rc(&bm.qcur)));
-                }
-                if !self.wl_active(bm.wl) && charged.1 > bm.qpub.1 {
-                    self.flag("mint", "charged-above-public", format!("public buyer charged {} > advertised public price {}", rc(&charged), rc(&bm.qpub)));
-                }
-            }
+        } else if op == "mint" && !self.last_charged.is_empty() {
+            self.flag("mint", "failed-mint-charged", format!("the mint failed but {:?} left the buyer's account", self.last_charged));
         }
-        // every op: public price never raised after the start; discount never above the public price
-        if let (Some(bm), Some(am)) = (&before.m, &after.m) {
-            if now >= bm.start && am.pubp.1 > bm.pubp.1 {
-                self.flag(op, "raised-after-start", format!("public price went {} -> {} at {now}, start was {}", rc(&bm.pubp), rc(&am.pubp), bm.start));
-            }
-            if op == "ump" && ok && now >= bm.start && am.pubp.1 >= bm.pubp.1 {
-                self.flag(op, "raised-after-start", format!("UpdateMintPrice after start accepted {} (was {})", rc(&am.pubp), rc(&bm.pubp)));
-            }
+
+        // ---------------------------------------------------------------- 2. the stored state must be exactly what was set
+        if after.fmin != self.g_fmin {
+            self.flag(op, "factory-min-not-as-set", format!("factory reports min_mint_price {} but governance last set {}", rc(&after.fmin), rc(&self.g_fmin)));
         }
         if let Some(am) = &after.m {
+            if let Some(gp) = self.g_pub {
+                if am.pubp != gp {
+                    if started && am.pubp.1 > gp.1 {
+                        self.flag(op, "raised-after-start", format!("public price is {} after `{op}` at {now}; it was set to {} and the mint started at {:?}", rc(&am.pubp), rc(&gp), self.g_start));
+                    }
+                    if am.pubp.1 < fmin.1 {
+                        self.flag(op, "below-floor", format!("public price became {} (below the factory minimum {}) by `{op}`", rc(&am.pubp), rc(&fmin)));
+                    }
+                    self.flag(op, "public-price-not-as-set", format!("public price is {} after `{op}` (accepted={ok}); the last accepted price-setting operation set {}", rc(&am.pubp), rc(&gp)));
+                }
+                if am.qpub != gp {
+                    self.flag(op, "query-fields", format!("MintPrice.public_price {} differs from the public price set {}", rc(&am.qpub), rc(&gp)));
+                }
+            }
+            if am.disc != self.g_disc {
+                self.flag(op, "discount-not-as-set", format!("discount is {} after `{op}` (accepted={ok}); the last accepted operation left {}", roc(&am.disc), roc(&self.g_disc)));
+            }
+            if am.wl != self.g_wl {
+                self.flag(op, "whitelist-not-as-set", format!("attached whitelist is {:?} after `{op}` (accepted={ok}); the last accepted operation attached {:?}", am.wl, self.g_wl));
+            }
+            if Some(am.start) != self.g_start {
+                self.flag(op, "start-time-not-as-set", format!("start_time is {} after `{op}` (accepted={ok}); it was set to {:?}", am.start, self.g_start));
+            }
             if let Some(d) = am.disc {
                 if d.1 > am.pubp.1 || d.0 != am.pubp.0 {
                     self.flag(op, "discount-above-public", format!("stored discount {} exceeds public price {}", rc(&d), rc(&am.pubp)));
                 }
+            }
+            if ok && (op == "udp" || op == "rdp") && am.last != Some(now) {
+                self.flag(op, "last-discount-time-not-saved", format!("discount changed at {now} but LAST_DISCOUNT_TIME is {:?}", am.last));
             }
             // the query's stored fields
             if am.qpub != am.pubp || am.qdisc != am.disc {
                 self.flag(op, "query-fields", format!("MintPrice public/discount {} / {} differ from Config {} / {}", rc(&am.qpub), roc(&am.qdisc), rc(&am.pubp), roc(&am.disc)));
             }
         }
-        if !ok && before != after && op != "migrate" {
-            self.flag(op, "failed-op-changed-state", format!("`{line}` failed but the observable price state changed"));
+        if !ok && in_projection && before.price_state() != after.price_state() {
+            self.flag(op, "failed-op-changed-state", format!("`{line}` failed but the price state changed"));
         }
-        (line.to_string(), format!("{} {}", if ok { "ok" } else { "err" }, after.render()))
-    }
-
-    fn monitor(&mut self) -> Option<(String, String)> {
-        self.finding.take()
     }
 }
 
 // ------------------------------------------------------------------------------------------------ generators
 
 struct Gen {
-    kind: MinterKind,
     now: u64,
-    fd: u64,
     created: bool,
-    nwl: usize,
-    wl_windows: Vec<(u64, u64)>,
 }
 
 fn amount(rng: &mut Rng, around: u128) -> u128 {
@@ -620,10 +1267,256 @@ fn amount(rng: &mut Rng, around: u128) -> u128 {
 fn field<'a>(out: &'a str, k: &str) -> Option<&'a str> {
     kv(out, k)
 }
-fn fcoin(out: &str, k: &str) -> Option<(u64, u128)> {
+fn fcoin(out: &str, k: &str) -> Option<C> {
     let v = field(out, k)?;
     let (d, a) = v.split_once(':')?;
     Some((d.parse().ok()?, a.parse().ok()?))
+}
+fn tag_of(out: &str) -> &str {
+    out.split_whitespace().next().unwrap_or("?")
+}
+
+/// step + drain what the Sut wants recorded in the evidence
+fn step(ses: &mut Session, sut: &mut S, line: &str) -> String {
+    let o = ses.step(sut, line);
+    for c in std::mem::take(&mut sut.counts) {
+        ses.count(&c);
+    }
+    if line == "surface" {
+        let kname = sut.kind.name();
+        for (name, who, okk, known_v) in std::mem::take(&mut sut.surface_log) {
+            ses.mark(format!("surface:{kname}:{name}:{who}:{}", if okk { "ok" } else { "err" }));
+            if !known_v {
+                ses.mark(format!("surface:unknown-variant:{kname}:{name}"));
+                ses.count(&format!("unknown-variant:{name}"));
+            }
+        }
+    }
+    o
+}
+
+/// a line creating a whitelist: plain kind (`wl`) or tiered kind (`wlt`, 1–3 stages, later stages priced around the floor)
+fn gen_wl(rng: &mut Rng, now: u64, d: u64, fmin: u128, pubp: u128, tiered: bool) -> String {
+    let price = |rng: &mut Rng| -> u128 {
+        match rng.below(8) {
+            0 => fmin.saturating_sub(1),
+            1 => fmin,
+            2 => 0,
+            3 => pubp + rng.below(1000) as u128,
+            4 => amount(rng, fmin),
+            _ => {
+                let hi = pubp.max(fmin) + 10;
+                fmin + (rng.next_u128() % (hi - fmin + 1))
+            }
+        }
+    };
+    let ws = now + rng.range(1, 2 * HOUR);
+    if !tiered {
+        let we = if rng.chance(1, 10) { ws } else { ws + rng.range(1, 3 * HOUR) };
+        return format!("wl d={d} p={} s={ws} e={we}", price(rng));
+    }
+    let n = rng.range(1, 3);
+    let (mut ps, mut ss, mut es) = (vec![], vec![], vec![]);
+    let mut s = ws;
+    for i in 0..n {
+        let e = s + rng.range(1, 2 * HOUR);
+        // the first stage is mostly valid (so that the whitelist attaches), later ones are what the minter never looks at
+        ps.push(if i == 0 && rng.chance(2, 3) { fmin + rng.below(1000) as u128 } else { price(rng) });
+        ss.push(s);
+        es.push(e);
+        s = if rng.chance(1, 3) { e } else { e + rng.range(1, HOUR) };
+    }
+    format!("wlt d={d} p={} s={} e={}", fmt_list(&ps), fmt_list(&ss), fmt_list(&es))
+}
+
+fn windows(sut: &S) -> Vec<(u64, u64)> {
+    sut.wls.iter().flat_map(|g| g.stages.iter().map(|s| (s.1, s.2))).collect()
+}
+
+/// deterministic boundary walks, run for every seed: the classes `bnd:<kind>:…` carry the OUTCOME, and are required
+fn boundary_cases(ses: &mut Session, sut: &mut S, optin: &str) {
+    for kind in &ALL_MINTERS[..9] {
+        let kind = *kind;
+        let k = kind.idx();
+        let oe = kind.is_open_edition();
+        let t0 = GENESIS + DAY;
+        let s = t0 + DAY;
+        let e = s + 3 * DAY;
+        let es = if oe { e.to_string() } else { "-".to_string() };
+        let mark = |ses: &mut Session, what: &str, out: &str| ses.mark(format!("bnd:{k}:{what}:{}", tag_of(out)));
+        // ---- A. floor at creation / UpdateMintPrice / SetWhitelist; only-lower after the start; open edition: the end
+        ses.begin_case(sut, &format!("case kind={k} now={t0} fd=0 fmin=5000 air=7 bps=1000 corpus=floor{optin}"));
+        let o = step(ses, sut, &format!("wl d=0 p=4999 s={} e={}", t0 + HOUR, t0 + 2 * HOUR));
+        mark(ses, "wl-made", &o);
+        step(ses, sut, &format!("wl d=0 p=5000 s={} e={}", t0 + HOUR, t0 + 2 * HOUR));
+        step(ses, sut, &format!("wl d=1 p=6000 s={} e={}", t0 + HOUR, t0 + 2 * HOUR));
+        let o = step(ses, sut, &format!("create by=10 d=0 p=4999 s={s} e={es} cap=1 wl=-"));
+        mark(ses, "create:floor-1", &o);
+        let o = step(ses, sut, &format!("create by=10 d=1 p=5000 s={s} e={es} cap=1 wl=-"));
+        mark(ses, "create:wrong-denom", &o);
+        let o = step(ses, sut, &format!("create by=10 d=0 p=5000 s={s} e={es} cap=1 wl=-"));
+        mark(ses, "create:floor", &o);
+        step(ses, sut, "probe");
+        let o = step(ses, sut, "swl by=10 paid=0 k=0");
+        mark(ses, "swl:floor-1", &o);
+        let o = step(ses, sut, "swl by=10 paid=0 k=2");
+        mark(ses, "swl:wrong-denom", &o);
+        let o = step(ses, sut, "swl by=11 paid=0 k=1");
+        mark(ses, "swl:stranger", &o);
+        let o = step(ses, sut, "swl by=10 paid=0 k=1");
+        mark(ses, "swl:floor", &o);
+        let o = step(ses, sut, "ump by=10 paid=0 p=100000");
+        mark(ses, "ump:before:raise", &o);
+        let o = step(ses, sut, "ump by=10 paid=0 p=4999");
+        mark(ses, "ump:before:floor-1", &o);
+        let o = step(ses, sut, "sudomin d=0 a=6000");
+        mark(ses, "sudomin", &o);
+        let o = step(ses, sut, "ump by=10 paid=0 p=5999");
+        mark(ses, "ump:before:newfloor-1", &o);
+        let o = step(ses, sut, "ump by=10 paid=0 p=6000");
+        mark(ses, "ump:before:newfloor", &o);
+        let o = step(ses, sut, "facmig d=0 a=5000 bps=-");
+        mark(ses, "facmig", &o);
+        let o = step(ses, sut, "ump by=10 paid=0 p=100000");
+        mark(ses, "ump:before:raise2", &o);
+        // whitelist window [t0+1h, t0+2h): the whitelist price is charged inside, the public one outside
+        for (what, t) in [("wlstart-1", t0 + HOUR - 1), ("wlstart", t0 + HOUR), ("wlend-1", t0 + 2 * HOUR - 1), ("wlend", t0 + 2 * HOUR)] {
+            step(ses, sut, &format!("t now={t}"));
+            let o = step(ses, sut, "probe");
+            ses.mark(format!("bnd:{k}:probe:{what}:{}", o.split_whitespace().skip(1).take(3).collect::<Vec<_>>().join(",")));
+        }
+        step(ses, sut, &format!("t now={}", t0 + HOUR + 5));
+        let o = step(ses, sut, "mint buyer=20 funds=0:5000");
+        mark(ses, "mint:wl-price", &o);
+        let o = step(ses, sut, "mint buyer=21 funds=0:100000");
+        mark(ses, "mint:wl-active-public-price", &o);
+        step(ses, sut, &format!("t now={}", s - 1));
+        let o = step(ses, sut, "ump by=10 paid=0 p=100001");
+        mark(ses, "ump:start-1:raise", &o);
+        step(ses, sut, &format!("t now={s}"));
+        let o = step(ses, sut, "ump by=10 paid=0 p=100002");
+        mark(ses, "ump:start:raise", &o);
+        let o = step(ses, sut, "ump by=10 paid=0 p=100001");
+        mark(ses, "ump:start:equal", &o);
+        let o = step(ses, sut, "ump by=10 paid=1 p=100000");
+        mark(ses, "ump:start:lower-paid", &o);
+        let o = step(ses, sut, "ump by=11 paid=0 p=100000");
+        mark(ses, "ump:start:lower-stranger", &o);
+        let o = step(ses, sut, "ump by=10 paid=0 p=100000");
+        mark(ses, "ump:start:lower", &o);
+        step(ses, sut, "probe");
+        let o = step(ses, sut, "mint buyer=22 funds=0:100000");
+        mark(ses, "mint:public", &o);
+        let o = step(ses, sut, "mint buyer=22 funds=0:99999");
+        mark(ses, "mint:public-1", &o);
+        let o = step(ses, sut, "migrate va=3 vb=15 vc=0");
+        mark(ses, "migrate:older", &o);
+        let o = step(ses, sut, "migrate va=4 vb=0 vc=0");
+        mark(ses, "migrate:newer", &o);
+        if oe {
+            step(ses, sut, &format!("t now={}", e - 1));
+            let o = step(ses, sut, "ump by=10 paid=0 p=90000");
+            mark(ses, "ump:end-1:lower", &o);
+            step(ses, sut, "probe");
+            step(ses, sut, &format!("t now={e}"));
+            let o = step(ses, sut, "ump by=10 paid=0 p=80000");
+            mark(ses, "ump:end:lower", &o);
+            step(ses, sut, "probe");
+        }
+        step(ses, sut, "surface");
+        ses.end_case();
+
+        // ---- B. a tiered whitelist with two TOUCHING stages: closed windows, first stage wins at the shared instant
+        let (a, b, c) = (t0 + HOUR, t0 + 2 * HOUR, t0 + 3 * HOUR);
+        ses.begin_case(sut, &format!("case kind={k} now={t0} fd=0 fmin=5000 air=0 bps=1000 corpus=tiered{optin}"));
+        let o = step(ses, sut, &format!("wlt d=0 p=7000,6000 s={a},{b} e={b},{c}"));
+        mark(ses, "wlt-made", &o);
+        step(ses, sut, &format!("create by=10 d=0 p=100000 s={s} e={es} cap=1 wl=-"));
+        let o = step(ses, sut, "swl by=10 paid=0 k=0");
+        mark(ses, "swl:tiered", &o);
+        for (what, t) in [("s1-1", a - 1), ("s1", a), ("s1end", b), ("s1end+1", b + 1), ("s2end", c), ("s2end+1", c + 1)] {
+            step(ses, sut, &format!("t now={t}"));
+            let o = step(ses, sut, "probe");
+            ses.mark(format!("bnd:{k}:tier:{what}:{}", o.split_whitespace().skip(1).take(3).collect::<Vec<_>>().join(",")));
+            if what == "s1" {
+                let o = step(ses, sut, "mint buyer=23 funds=0:7000");
+                mark(ses, "mint:tier-s1", &o);
+            }
+            if what == "s1end+1" {
+                let o = step(ses, sut, "mint buyer=23 funds=0:6000");
+                mark(ses, "mint:tier-s2", &o);
+                // the whitelist admin re-prices the running stage (at the floor): the query and the charge follow
+                let o = step(ses, sut, "wlstage k=0 i=1 p=5000 d=- s=- e=-");
+                mark(ses, "wlstage", &o);
+                let o = step(ses, sut, "probe");
+                ses.mark(format!("bnd:{k}:tier:repriced:{}", o.split_whitespace().skip(1).take(3).collect::<Vec<_>>().join(",")));
+            }
+        }
+        step(ses, sut, "surface");
+        ses.end_case();
+
+        // ---- C. discounts (vending only): start, 12 h, 1 h, each −1 ns / sharp; fix 100f319
+        if !oe {
+            ses.begin_case(sut, &format!("case kind={k} now={t0} fd=0 fmin=50 air=0 bps=1000 corpus=fc07{optin}"));
+            step(ses, sut, &format!("create by=10 d=0 p=1000 s={s} e=- cap=1 wl=-"));
+            step(ses, sut, "probe");
+            step(ses, sut, &format!("t now={}", s - 1));
+            let o = step(ses, sut, "udp by=10 paid=0 p=900");
+            mark(ses, "udp:start-1", &o);
+            step(ses, sut, &format!("t now={s}"));
+            step(ses, sut, "probe");
+            let o = step(ses, sut, "udp by=11 paid=0 p=900");
+            mark(ses, "udp:stranger", &o);
+            let o = step(ses, sut, "udp by=10 paid=0 p=900");
+            mark(ses, "udp:start", &o);
+            step(ses, sut, "probe");
+            let o = step(ses, sut, "ump by=10 paid=0 p=500");
+            mark(ses, "ump:below-discount", &o);
+            let o = step(ses, sut, "probe");
+            ses.mark(format!("bnd:{k}:probe:after-cut:{}", o.split_whitespace().skip(1).take(3).collect::<Vec<_>>().join(",")));
+            let o = step(ses, sut, "mint buyer=20 funds=0:900");
+            mark(ses, "mint:old-discount", &o);
+            let o = step(ses, sut, "mint buyer=20 funds=0:500");
+            mark(ses, "mint:new-public", &o);
+            step(ses, sut, &format!("t now={}", s + HOUR - 1));
+            let o = step(ses, sut, "rdp by=10 paid=0");
+            mark(ses, "rdp:last1h-1", &o);
+            step(ses, sut, &format!("t now={}", s + HOUR));
+            let o = step(ses, sut, "rdp by=10 paid=0");
+            mark(ses, "rdp:last1h", &o);
+            step(ses, sut, &format!("t now={}", s + HOUR + H12 - 1));
+            let o = step(ses, sut, "udp by=10 paid=0 p=400");
+            mark(ses, "udp:last12h-1", &o);
+            step(ses, sut, &format!("t now={}", s + HOUR + H12));
+            let o = step(ses, sut, "udp by=10 paid=0 p=501");
+            mark(ses, "udp:pub+1", &o);
+            let o = step(ses, sut, "udp by=10 paid=0 p=49");
+            mark(ses, "udp:floor-1", &o);
+            let o = step(ses, sut, "udp by=10 paid=0 p=500");
+            mark(ses, "udp:last12h", &o);
+            step(ses, sut, "probe");
+            let o = step(ses, sut, "mint buyer=21 funds=0:500");
+            mark(ses, "mint:discount=public", &o);
+            let o = step(ses, sut, "ump by=10 paid=0 p=500");
+            mark(ses, "ump:after:equal", &o);
+            let o = step(ses, sut, "ump by=10 paid=0 p=499");
+            mark(ses, "ump:after:lower", &o);
+            step(ses, sut, "probe");
+            let o = step(ses, sut, "migrate va=3 vb=8 vc=0");
+            mark(ses, "migrate:pre390", &o);
+            let o = step(ses, sut, "udp by=10 paid=0 p=300");
+            mark(ses, "udp:after-reanchor", &o);
+            step(ses, sut, "probe");
+            step(ses, sut, &format!("t now={}", s + HOUR + H12 + HOUR));
+            let o = step(ses, sut, "sudofee bps=500");
+            mark(ses, "sudofee", &o);
+            let o = step(ses, sut, "rdp by=10 paid=0");
+            mark(ses, "rdp:after-udp1h", &o);
+            step(ses, sut, "probe");
+            step(ses, sut, "surface");
+            ses.end_case();
+        }
+    }
 }
 
 fn main() {
@@ -633,52 +1526,74 @@ fn main() {
         ses.finish(&mut sut);
     }
     let mut rng = ses.rng.fork();
-    let denom_switch = std::env::var("C07_DENOM_SWITCH").map(|v| v == "1").unwrap_or(false)
-        || load_known("C07").iter().any(|k| k.key.ends_with("denom-differs-from-factory-min-after-governance-denom-switch"));
-
-    // ------------------------------------------------------------------ 0. fixed corpus: the repaired defect F-C07 and boundary walks
-    for kind in VENDING_KINDS {
-        let k = kind.idx();
-        let t0 = GENESIS + DAY;
-        let s = t0 + DAY;
-        let lines = vec![
-            format!("case kind={k} now={t0} fd=0 fmin=50 air=0 bps=1000 corpus=fc07"),
-            format!("create by=10 d=0 p=1000 s={s} e=- cap=1 wl=-"),
-            "probe".to_string(),
-            format!("t now={}", s - 1),
-            "udp by=10 paid=0 p=900".to_string(),
-            format!("t now={s}"),
-            "probe".to_string(),
-            "udp by=10 paid=0 p=900".to_string(),
-            "probe".to_string(),
-            "ump by=10 paid=0 p=500".to_string(),
-            "probe".to_string(),
-            format!("mint buyer=20 funds=0:900"),
-            format!("mint buyer=20 funds=0:500"),
-            format!("t now={}", s + HOUR - 1),
-            "rdp by=10 paid=0".to_string(),
-            format!("t now={}", s + HOUR),
-            "rdp by=10 paid=0".to_string(),
-            format!("t now={}", s + HOUR + H12 - 1),
-            "udp by=10 paid=0 p=400".to_string(),
-            format!("t now={}", s + HOUR + H12),
-            "udp by=10 paid=0 p=501".to_string(),
-            "udp by=10 paid=0 p=49".to_string(),
-            "udp by=10 paid=0 p=500".to_string(),
-            "probe".to_string(),
-            "ump by=10 paid=0 p=500".to_string(),
-            "ump by=10 paid=0 p=499".to_string(),
-            "probe".to_string(),
-            "migrate va=3 vb=8 vc=0".to_string(),
-            "udp by=10 paid=0 p=300".to_string(),
-            "probe".to_string(),
-        ];
-        ses.run_case(&mut sut, &lines);
-        ses.mark(format!("corpus:fc07:{}", kind.name()));
+    let known = load_known("C07");
+    let listed = |suffix: &str| known.iter().any(|k| k.status == "finding" && k.key.ends_with(suffix));
+    let env_on = |name: &str| std::env::var(name).map(|v| v == "1").unwrap_or(false);
+    let denom_switch = env_on("C07_DENOM_SWITCH") || listed("denom-differs-from-factory-min-after-governance-denom-switch");
+    // the monitors for the reported-but-undecided behaviours are raised only in cases whose header opts in; generated cases
+    // opt in once the behaviour is listed in known_findings.json (or with C07_OPTIN=1)
+    let mut flags: Vec<&str> = vec![];
+    if env_on("C07_OPTIN") || listed("create/whitelist-below-floor") {
+        flags.push("cwl");
     }
+    if env_on("C07_OPTIN") || listed("swl/tiered-stage-below-floor") {
+        flags.push("tier");
+    }
+    if env_on("C07_OPTIN") || listed("attached-whitelist-price-below-floor") {
+        flags.push("wlmut");
+    }
+    let optin = if flags.is_empty() { String::new() } else { format!(" optin={}", flags.join(",")) };
+
+    // ------------------------------------------------------------------ coverage floor (every seed, every tier)
+    for k in 0..9usize {
+        let oe = k >= 6;
+        for c in [
+            "create:floor-1:err", "create:wrong-denom:err", "create:floor:ok", "swl:floor-1:err", "swl:wrong-denom:err", "swl:stranger:err", "swl:floor:ok",
+            "ump:before:raise:ok", "ump:before:floor-1:err", "sudomin:ok", "ump:before:newfloor-1:err", "ump:before:newfloor:ok", "facmig:ok", "ump:before:raise2:ok",
+            "ump:start-1:raise:ok", "ump:start:raise:err", "ump:start:equal:err", "ump:start:lower-paid:err", "ump:start:lower-stranger:err", "ump:start:lower:ok",
+            "probe:wlstart-1:cur=0:100000,lo=0,eq=0", "probe:wlstart:cur=0:5000,lo=0,eq=1", "probe:wlend-1:cur=0:5000,lo=0,eq=1", "probe:wlend:cur=0:100000,lo=0,eq=0",
+            "mint:wl-price:ok", "mint:wl-active-public-price:err", "mint:public:ok", "mint:public-1:err", "migrate:older:ok", "migrate:newer:err",
+            "swl:tiered:ok", "tier:s1-1:cur=0:100000,lo=0,eq=0", "tier:s1:cur=0:7000,lo=0,eq=1", "tier:s1end:cur=0:7000,lo=0,eq=1", "tier:s1end+1:cur=0:6000,lo=0,eq=1",
+            "tier:s2end:cur=0:5000,lo=0,eq=1", "tier:s2end+1:cur=0:100000,lo=0,eq=0", "mint:tier-s1:ok", "mint:tier-s2:ok", "tier:repriced:cur=0:5000,lo=0,eq=1",
+        ] {
+            ses.require(format!("bnd:{k}:{c}"));
+        }
+        if oe {
+            ses.require(format!("bnd:{k}:ump:end-1:lower:ok"));
+            ses.require(format!("bnd:{k}:ump:end:lower:err"));
+        } else {
+            for c in [
+                "udp:start-1:err", "udp:stranger:err", "udp:start:ok", "ump:below-discount:ok", "probe:after-cut:cur=0:500,lo=0,eq=1", "mint:old-discount:err", "mint:new-public:ok",
+                "rdp:last1h-1:err", "rdp:last1h:ok", "udp:last12h-1:err", "udp:pub+1:err", "udp:floor-1:err", "udp:last12h:ok", "mint:discount=public:ok",
+                "ump:after:equal:err", "ump:after:lower:ok", "migrate:pre390:ok", "udp:after-reanchor:ok", "rdp:after-udp1h:ok",
+            ] {
+                ses.require(format!("bnd:{k}:{c}"));
+            }
+        }
+        // the run-time message surface: every other variant that exists today was sent by a stranger and by the admin
+        let kind = ALL_MINTERS[k];
+        for v in ["update_start_trading_time", "update_per_address_limit", "mint_to", "purge", "burn_remaining"] {
+            ses.require(format!("surface:{}:{v}:str", kind.name()));
+            ses.require(format!("surface:{}:{v}:adm", kind.name()));
+        }
+    }
+    for fam in ["vend", "oe"] {
+        for c in ["create:valid:ok", "create:mutated:er", "ump:before:ok", "ump:after:ok", "ump:after:er", "swl:before:ok", "swl:before:er", "mint:after:ok", "sudomin:", "wlmut:", "facmig:", "sudofee:", "migrate:"] {
+            ses.require(format!("{fam}:{c}"));
+        }
+        ses.require(format!("*{fam}:probe:after:wl0:disc0:lo=0eq=1hi=0wd=0*"));
+        ses.require(format!("{fam}:tiered-attached"));
+    }
+    for c in ["udp:after:ok", "udp:after:er", "udp:before:er", "rdp:after:ok", "rdp:after:er"] {
+        ses.require(format!("vend:{c}"));
+    }
+    ses.require("oe:uet:");
+
+    // ------------------------------------------------------------------ 0. fixed boundary walks on all 9 variants
+    boundary_cases(&mut ses, &mut sut, &optin);
 
     // ------------------------------------------------------------------ 1. random structured histories
-    let n_cases = ses.scale(1080, 27000);
+    let n_cases = ses.scale(810, 21600);
     for ci in 0..n_cases {
         let kind = ALL_MINTERS[(ci % 9) as usize];
         let k = kind.idx();
@@ -693,35 +1608,33 @@ fn main() {
             _ => 50_000_000,
         };
         let air: u128 = if rng.chance(1, 3) { 0 } else { rng.below(100_000_000) as u128 };
-        let mut g = Gen { kind, now: t0, fd, created: false, nwl: 0, wl_windows: vec![] };
+        let mut g = Gen { now: t0, created: false };
         let bps = *rng.pick(&[1000u64, 1000, 1000, 500, 0, 10_000, 1]);
-        ses.begin_case(&mut sut, &format!("case kind={k} now={t0} fd={fd} fmin={fmin} air={air} bps={bps}"));
+        ses.begin_case(&mut sut, &format!("case kind={k} now={t0} fd={fd} fmin={fmin} air={air} bps={bps}{optin}"));
         let tag = |s: &str| format!("{}:{s}", if oe { "oe" } else { "vend" });
 
-        // -- whitelists before the minter exists (0..2), prices around the floor
+        // -- whitelists before the minter exists (0..2), plain or tiered, prices around the floor
         let start = t0 + rng.range(2, 6) * HOUR + rng.below(1000);
         let mut out = String::new();
         for _ in 0..rng.below(3) {
-            let ws = g.now + rng.range(1, 2 * HOUR);
-            let we = if rng.chance(1, 8) { ws } else { ws + rng.range(1, 3 * HOUR) };
             let wd = if rng.chance(1, 6) { 1 - fd } else { fd };
-            let wp = amount(&mut rng, fmin);
-            out = ses.step(&mut sut, &format!("wl d={wd} p={wp} s={ws} e={we}"));
-            if out.starts_with("ok") {
-                g.nwl += 1;
-                g.wl_windows.push((ws, we));
-                ses.mark(tag(&format!("wl:{}:{}", if wd == fd { "denom-ok" } else { "denom-bad" }, if wp < fmin { "below" } else { "ok" })));
+            let tiered = rng.chance(2, 5);
+            let l = gen_wl(&mut rng, g.now, wd, fmin, fmin + 1000, tiered);
+            let n0 = sut.wls.len();
+            out = step(&mut ses, &mut sut, &l);
+            if sut.wls.len() > n0 {
+                ses.mark(tag(&format!("wl:{}:{}:{}", if tiered { "tiered" } else { "plain" }, if wd == fd { "denom-ok" } else { "denom-bad" }, sut.wls[n0].stages.len())));
             }
         }
         // -- sometimes governance moves the floor before creation
         if rng.chance(1, 4) && (fd == 0 || denom_switch) {
             let a = amount(&mut rng, fmin);
-            out = ses.step(&mut sut, &format!("sudomin d=0 a={a}"));
+            out = step(&mut ses, &mut sut, &format!("sudomin d=0 a={a}"));
         }
 
         // -- create (retry with a valid price if a mutated one fails)
         for attempt in 0..3 {
-            ses.step(&mut sut, "probe");
+            step(&mut ses, &mut sut, "probe");
             // the floor in force, read from the implementation's last observation
             let fm = fcoin(&out, "fmin").unwrap_or((fd, fmin));
             let valid = attempt == 2 || rng.chance(7, 10);
@@ -741,16 +1654,20 @@ fn main() {
             } else {
                 "-".to_string()
             };
-            let wl = if g.nwl > 0 && rng.chance(1, 3) { rng.below(g.nwl as u64).to_string() } else { "-".to_string() };
+            let nwl = sut.wls.len();
+            let wl = if nwl > 0 && rng.chance(1, 3) { rng.below(nwl as u64).to_string() } else { "-".to_string() };
             let s = if valid || rng.chance(1, 2) { start } else { *rng.pick(&[g.now - 1, g.now, g.now + 1]) };
-            out = ses.step(&mut sut, &format!("create by=10 d={pd} p={pp} s={s} e={e} cap={} wl={wl}", cap as u8));
+            out = step(&mut ses, &mut sut, &format!("create by=10 d={pd} p={pp} s={s} e={e} cap={} wl={wl}", cap as u8));
             ses.mark(tag(&format!("create:{}:{}", if valid { "valid" } else { "mutated" }, &out[..2])));
             if out.starts_with("ok") {
                 g.created = true;
+                if wl != "-" {
+                    ses.mark(tag("create:with-whitelist"));
+                }
                 break;
             }
         }
-        ses.step(&mut sut, "probe");
+        step(&mut ses, &mut sut, "probe");
 
         // -- the history
         let n_ops = rng.range(12, 30);
@@ -761,13 +1678,14 @@ fn main() {
             let st: u64 = field(&out, "start").and_then(|s| s.parse().ok()).unwrap_or(start);
             let last: Option<u64> = field(&out, "last").and_then(|s| s.parse().ok());
             let stop: Option<u64> = field(&out, "stop").and_then(|s| s.parse().ok());
+            let attached: Option<usize> = field(&out, "wl").and_then(|s| s.parse().ok());
             let before_start = g.now < st;
 
             // which op (weights depend on the phase)
-            let weights: [(&str, u64); 9] = if before_start {
-                [("ump", 18), ("swl", 30), ("ust", 8), ("sudomin", 9), ("sudoair", 3), ("udp", 5), ("rdp", 5), ("mint", 16), ("migrate", 4)]
+            let weights: [(&str, u64); 13] = if before_start {
+                [("ump", 16), ("swl", 26), ("ust", 7), ("sudomin", 8), ("sudoair", 2), ("udp", 4), ("rdp", 4), ("mint", 14), ("migrate", 4), ("wlmut", 9), ("sudofee", 3), ("facmig", 3), ("uet", 3)]
             } else {
-                [("ump", 22), ("swl", 4), ("ust", 3), ("sudomin", 9), ("sudoair", 3), ("udp", 26), ("rdp", 12), ("mint", 17), ("migrate", 4)]
+                [("ump", 20), ("swl", 4), ("ust", 3), ("sudomin", 8), ("sudoair", 2), ("udp", 24), ("rdp", 11), ("mint", 16), ("migrate", 4), ("wlmut", 6), ("sudofee", 3), ("facmig", 3), ("uet", 3)]
             };
             let total: u64 = weights.iter().map(|w| w.1).sum();
             let mut r = rng.below(total);
@@ -779,12 +1697,19 @@ fn main() {
                 }
                 r -= wgt;
             }
-            if opk == "migrate" && oe {
-                opk = "mint";
+            if opk == "uet" && !oe {
+                opk = "udp";
+            }
+            if (opk == "udp" || opk == "rdp") && oe && rng.chance(3, 4) {
+                opk = "ump";
+            }
+            if opk == "wlmut" && sut.wls.is_empty() {
+                opk = "swl";
             }
 
             // clock: an instant the state makes interesting (±1 ns), preferring the nearest ones and the one the
             // chosen op depends on; otherwise a small random step
+            let wins = windows(&sut);
             let mut inst: Vec<u64> = vec![st];
             if let Some(l) = last {
                 inst.push(l + H12);
@@ -793,11 +1718,11 @@ fn main() {
             if let Some(e) = stop {
                 inst.push(e);
             }
-            for (a, b) in &g.wl_windows {
+            for (a, b) in &wins {
                 inst.push(*a);
                 inst.push(*b);
             }
-            let mut cands: Vec<u64> = inst.iter().flat_map(|t| [t - 1, *t, t + 1]).filter(|t| *t >= g.now).collect();
+            let mut cands: Vec<u64> = inst.iter().flat_map(|t| [t.saturating_sub(1), *t, t + 1]).filter(|t| *t >= g.now).collect();
             cands.sort();
             cands.dedup();
             let target: Option<u64> = match opk {
@@ -820,7 +1745,10 @@ fn main() {
             };
             if t != g.now {
                 g.now = t;
-                out = ses.step(&mut sut, &format!("t now={t}"));
+                let o = step(&mut ses, &mut sut, &format!("t now={t}"));
+                if o.starts_with("env") {
+                    out = o;
+                }
                 let rel = |x: u64| if t + 1 == x { "m1" } else if t == x { "0" } else if t == x + 1 { "p1" } else { "" };
                 if !rel(st).is_empty() {
                     ses.mark(tag(&format!("clock:start{}", rel(st))));
@@ -838,16 +1766,20 @@ fn main() {
                         ses.mark(tag(&format!("clock:end{}", rel(e))));
                     }
                 }
-                for (a, b) in &g.wl_windows {
-                    if !rel(*a).is_empty() {
-                        ses.mark(tag(&format!("clock:wlstart{}", rel(*a))));
-                    }
-                    if !rel(*b).is_empty() {
-                        ses.mark(tag(&format!("clock:wlend{}", rel(*b))));
+                for (i, g2) in sut.wls.iter().enumerate() {
+                    let kindn = if is_tiered(g2.kind) { "tier" } else { "plain" };
+                    let att = if attached == Some(i) { "att" } else { "free" };
+                    for (j, s2) in g2.stages.iter().enumerate() {
+                        if !rel(s2.1).is_empty() {
+                            ses.mark(tag(&format!("clock:{kindn}:{att}:stage{j}start{}", rel(s2.1))));
+                        }
+                        if !rel(s2.2).is_empty() {
+                            ses.mark(tag(&format!("clock:{kindn}:{att}:stage{j}end{}", rel(s2.2))));
+                        }
                     }
                 }
                 if rng.chance(1, 2) {
-                    ses.step(&mut sut, "probe");
+                    step(&mut ses, &mut sut, "probe");
                 }
             }
             let started_now = g.now >= st;
@@ -892,27 +1824,77 @@ fn main() {
                 }
                 "rdp" => format!("rdp by={by} paid={paid}"),
                 "swl" => {
-                    // a fresh whitelist, then try to attach it (or an older one)
-                    if g.nwl < 6 && rng.chance(2, 3) {
-                        let ws = g.now + rng.range(1, 2 * HOUR);
-                        let we = ws + rng.range(1, 3 * HOUR);
+                    // a fresh whitelist (plain or tiered), then try to attach it (or an older one)
+                    if sut.wls.len() < 6 && rng.chance(2, 3) {
                         let wd = if rng.chance(1, 7) { 1 - fm.0.min(1) } else { fm.0 };
-                        let wp = match rng.below(8) {
-                            0 => fm.1.saturating_sub(1),
-                            1 => fm.1,
-                            2 => 0,
-                            3 => pubp.1 + rng.below(1000) as u128,
-                            _ => within(&mut rng, fm.1, pubp.1.max(fm.1) + 10),
-                        };
-                        let o = ses.step(&mut sut, &format!("wl d={wd} p={wp} s={ws} e={we}"));
-                        if o.starts_with("ok") {
-                            g.nwl += 1;
-                            g.wl_windows.push((ws, we));
+                        let tiered = rng.chance(2, 5);
+                        let l = gen_wl(&mut rng, g.now, wd, fm.1, pubp.1, tiered);
+                        let o = step(&mut ses, &mut sut, &l);
+                        if o.starts_with("env") {
                             out = o;
                         }
                     }
-                    let k = if g.nwl == 0 || rng.chance(1, 20) { g.nwl as u64 + 1 } else if rng.chance(2, 3) { g.nwl as u64 - 1 } else { rng.below(g.nwl as u64) };
+                    let nwl = sut.wls.len() as u64;
+                    let k = if nwl == 0 || rng.chance(1, 20) { nwl + 1 } else if rng.chance(2, 3) { nwl - 1 } else { rng.below(nwl) };
+                    pclass = match sut.wls.get(k as usize) {
+                        Some(g2) if is_tiered(g2.kind) => "tiered",
+                        Some(_) => "plain",
+                        None => "none",
+                    };
                     format!("swl by={by} paid={paid} k={k}")
+                }
+                "wlmut" => {
+                    // the admin of a whitelist contract changes it — preferably the one attached to the minter
+                    let nwl = sut.wls.len();
+                    let k = match attached {
+                        Some(a) if a < nwl && rng.chance(3, 4) => a,
+                        _ => rng.below(nwl as u64) as usize,
+                    };
+                    let g2 = sut.wls[k].clone();
+                    if is_tiered(g2.kind) {
+                        let ns = g2.stages.len() as u64;
+                        match rng.below(10) {
+                            0 => {
+                                pclass = "add";
+                                let lastend = g2.stages.last().map(|s| s.2).unwrap_or(g.now);
+                                let jitter = rng.below(HOUR);
+                                let s2 = *rng.pick(&[lastend, lastend + 1, lastend + jitter, g.now + 1]);
+                                format!("wladd k={k} p={} s={s2} e={}", amount(&mut rng, fm.1), s2 + rng.range(1, HOUR))
+                            }
+                            1 => {
+                                pclass = "rm";
+                                format!("wlrm k={k} i={}", rng.below(ns + 1))
+                            }
+                            2..=6 => {
+                                pclass = "price";
+                                let i = if rng.chance(1, 12) { ns } else { rng.below(ns.max(1)) };
+                                let p = match rng.below(5) {
+                                    0 => fm.1.saturating_sub(1),
+                                    1 => fm.1,
+                                    2 => 0,
+                                    _ => within(&mut rng, fm.1, pubp.1.max(fm.1) + 10),
+                                };
+                                let d = if rng.chance(1, 8) { (1 - g2.denom.min(1)).to_string() } else { "-".to_string() };
+                                format!("wlstage k={k} i={i} p={p} d={d} s=- e=-")
+                            }
+                            _ => {
+                                pclass = "times";
+                                let i = rng.below(ns.max(1));
+                                let cur = g2.stages.get(i as usize).cloned().unwrap_or((0, g.now, g.now));
+                                let s2 = if rng.chance(1, 2) { "-".to_string() } else { rng.pick(&[g.now, g.now + 1, cur.1 + 1000, cur.1.saturating_sub(1000).max(g.now)]).to_string() };
+                                let e2 = if rng.chance(1, 2) { "-".to_string() } else { rng.pick(&[g.now, g.now + 1, cur.2 + 1000, cur.2.saturating_sub(1000), g.now + HOUR]).to_string() };
+                                format!("wlstage k={k} i={i} p=- d=- s={s2} e={e2}")
+                            }
+                        }
+                    } else {
+                        pclass = "time";
+                        let cur = g2.stages[0];
+                        if rng.chance(1, 2) {
+                            format!("wltime k={k} which=s t={}", rng.pick(&[g.now, g.now + 1, cur.1 + 1000, cur.1.saturating_sub(1000).max(g.now), cur.2, cur.2 + 1]))
+                        } else {
+                            format!("wltime k={k} which=e t={}", rng.pick(&[g.now, g.now + 1, cur.2 + 1000, cur.2.saturating_sub(1000), cur.1, g.now + HOUR]))
+                        }
+                    }
                 }
                 "sudomin" => {
                     if fm.0 == 0 || denom_switch {
@@ -930,10 +1912,29 @@ fn main() {
                         format!("sudoair d=0 a={}", rng.below(1_000_000) as u128)
                     }
                 }
+                "facmig" => {
+                    // the factory's migrate can carry the same UpdateParamsMsg as sudo (or none at all)
+                    let with_min = (fm.0 == 0 || denom_switch) && rng.chance(2, 3);
+                    let (d, a) = if with_min {
+                        pclass = "min";
+                        ((if rng.chance(1, 8) { 1 } else { 0 }).to_string(), within(&mut rng, 0, pubp.1 + 1).to_string())
+                    } else {
+                        pclass = "nomin";
+                        ("-".to_string(), "-".to_string())
+                    };
+                    let b = if rng.chance(1, 3) { rng.pick(&[0u64, 1, 500, 1000, 10_000]).to_string() } else { "-".to_string() };
+                    format!("facmig d={d} a={a} bps={b}")
+                }
+                "sudofee" => format!("sudofee bps={}", rng.pick(&[0u64, 1, 3, 500, 1000, 2500, 10_000])),
                 "sudoair" => format!("sudoair d={} a={}", if rng.chance(1, 5) { 1 } else { 0 }, rng.below(100_000_000)),
                 "ust" => {
                     let t = *rng.pick(&[g.now.saturating_sub(1), g.now, g.now + 1, st + HOUR, st.saturating_sub(HOUR).max(g.now), stop.unwrap_or(st), stop.unwrap_or(st) + 1]);
                     format!("ust by={by} paid={paid} t={t}")
+                }
+                "uet" => {
+                    let e0 = stop.unwrap_or(st + DAY);
+                    let t = *rng.pick(&[g.now.saturating_sub(1), g.now, g.now + 1, st.saturating_sub(1), st, e0 + HOUR, e0.saturating_sub(HOUR).max(g.now), g.now + 2 * HOUR]);
+                    format!("uet by={by} paid={paid} t={t}")
                 }
                 "migrate" => {
                     let v = *rng.pick(&[(3u64, 8u64, 9u64), (3, 9, 0), (3, 16, 0), (3, 16, 1), (2, 99, 99), (4, 0, 0), (3, 15, 7)]);
@@ -954,31 +1955,61 @@ fn main() {
                     format!("mint buyer={buyer} funds={funds}")
                 }
             };
-            let opk = line.split_whitespace().next().unwrap().to_string();
-            let o = ses.step(&mut sut, &line);
-            if o.starts_with("ok") || o.starts_with("err") {
+            let opw = line.split_whitespace().next().unwrap().to_string();
+            let o = step(&mut ses, &mut sut, &line);
+            if o.starts_with("ok") || o.starts_with("err") || o.starts_with("env") || o.starts_with("dust") {
                 out = o.clone();
             }
             let wl_on = field(&o, "qwl").map(|v| v != "-").unwrap_or(false);
             let wl_cur = wl_on && field(&o, "qwl") == field(&o, "qcur") && field(&o, "qcur") != field(&o, "qpub");
             let has_disc = field(&o, "disc").map(|v| v != "-").unwrap_or(false);
+            let opclass = if opk == "wlmut" { "wlmut" } else { opw.as_str() };
             ses.mark(tag(&format!(
-                "{opk}:{phase}:{}:{pclass}:wl{}{}:disc{}:{}{}",
+                "{opclass}:{phase}:{}:{pclass}:wl{}{}:disc{}:{}{}",
                 &o[..2.min(o.len())], wl_on as u8, if wl_cur { "a" } else { "" }, has_disc as u8,
                 if by == ADMIN { "adm" } else { "str" }, if paid == 1 { ":paid" } else { "" }
             )));
-            if opk != "mint" || rng.chance(1, 2) {
-                let pr = ses.step(&mut sut, "probe");
-                ses.mark(tag(&format!("probe:{phase}:wl{}:disc{}:{}", wl_on as u8, has_disc as u8, pr.split_whitespace().skip(2).collect::<Vec<_>>().join(""))));
+            if let Some(a) = field(&o, "wl").and_then(|s| s.parse::<usize>().ok()) {
+                if sut.wls.get(a).map(|g2| is_tiered(g2.kind)).unwrap_or(false) {
+                    ses.mark(tag("tiered-attached"));
+                    if wl_cur {
+                        ses.mark(tag("tiered-attached:charging"));
+                    }
+                }
+            }
+            if opw != "mint" || rng.chance(1, 2) {
+                let pr = step(&mut ses, &mut sut, "probe");
+                ses.mark(tag(&format!("probe:{phase}:wl{}:disc{}:{}", wl_on as u8, has_disc as u8, primary_part(&pr).split_whitespace().skip(2).collect::<Vec<_>>().join(""))));
             }
         }
+        // -- the rest of the minter's message surface, at the end (some of these messages end the sale)
+        if g.created {
+            step(&mut ses, &mut sut, "surface");
+        }
         ses.end_case();
-        let _ = (g.kind, g.fd, g.created);
     }
-    ses.note("times: start, LAST_DISCOUNT_TIME+12h, +1h, open-edition end, whitelist start/end, each −1 ns / exact / +1 ns; amounts around the factory minimum, the public price and the standing discount (±1), 0, random up to 2^90");
-    ses.note("probe = 4 real mint attempts (price−1, price, price+1, wrong denom) rolled back by cw-multi-test's own transaction cache (execute_multi with a failing sentinel message); the minter's raw storage is compared before/after every probe");
+    // unknown ExecuteMsg variants (a message added to a minter crate after this harness was written): reported, and sent
+    for kind in &ALL_MINTERS[..9] {
+        let all: Vec<String> = variants_of(&exec_schema(*kind)).into_iter().map(|(n, _)| n).collect();
+        for n in &all {
+            if !MODELLED.contains(&n.as_str()) && !OTHER_TODAY.contains(&n.as_str()) {
+                ses.note(format!("{}: ExecuteMsg variant `{n}` is unknown to this harness; it was built from the JSON schema and sent by a stranger and by the admin under the price-state monitors", kind.name()));
+            }
+        }
+        for m in MODELLED {
+            if !all.iter().any(|n| n == m) && !(["update_discount_price", "remove_discount_price"].contains(&m) && kind.is_open_edition()) && !(m == "update_end_time" && kind.is_vending()) {
+                ses.note(format!("{}: ExecuteMsg no longer has the variant `{m}` this harness drives", kind.name()));
+            }
+        }
+    }
+    ses.note("times: start, LAST_DISCOUNT_TIME+12h, +1h, open-edition end, every whitelist stage start/end (plain: half-open, tiered: closed), each −1 ns / exact / +1 ns; amounts around the factory minimum, the public price and the standing discount (±1), 0, random up to 2^90");
+    ses.note("probe = 4 real mint attempts (price−1, price, price+1, wrong denom) rolled back by cw-multi-test's own transaction cache (execute_multi with a sentinel contract that records it was reached, then fails); the minter's raw storage is compared before/after every probe");
+    ses.note("monitors compare the contracts with the harness's own ghost record (floor, fee rate, start, public price, discount, attached whitelist set by accepted messages); mint cost = buyer balance difference");
     if !denom_switch {
         ses.note("governance min-price changes are generated only on factories whose minimum is in the native denom (sudo only accepts the native denom, so on other factories every change switches the denom — see docs/C07.md, C07_denom_switch_counterexample); set C07_DENOM_SWITCH=1 to include them");
+    }
+    if flags.is_empty() {
+        ses.note("the monitors */create/whitelist-below-floor, */swl/tiered-stage-below-floor, */wl*/attached-whitelist-price-below-floor are raised only in cases whose header opts in (corpus replays; C07_OPTIN=1; or once listed in known_findings.json)");
     }
     if std::env::var("C07_DEBUG").is_ok() {
         for c in &ses.classes {
